@@ -1,88 +1,242 @@
-"""C02 — Generated result types admit nothing no execution could return (the anchored mechanisms)."""
+"""C02 — Generated result types admit nothing no execution could return (the anchored mechanisms).
+
+Two kinds of instances:
+
+* *structural* ones (provenance / tables read off the typed HIR).  They look through helper functions (`_inl`: virtual inlining of
+  every same-crate callee that is not itself an anchor of this property) and are three-valued: VIOLATED only on positive evidence
+  (an atom that is *absent* from an over-approximated provenance set, a constant of the wrong value), UNDECIDED when the shape that
+  would carry the evidence is not found.
+* *scenario* ones (`run:` in the message).  The anchored entry points — `get_type_for_selection_set`, `generate_selection_tree_type`,
+  `deep_merge_selection_tree`, all `pub` — are executed by a small interpreter of the typed HIR (`_Interp`, bottom of this file) on
+  partially determined inputs: a fixed small schema, a GraphQL selection written as text, everything else (positions, options)
+  undetermined.  The result is compared with what the GraphQL spec prescribes for that input (`_Oracle`: CollectFields with type
+  conditions, @skip/@include, same-key merging; nullability by wrapper).  A differing result is a concrete witness, hence positive
+  evidence, and it does not depend on how the code is spelled (loop / iterator chain, match / if-let / let-else, helpers, tuple /
+  struct, Vec+find / HashMap).  Whatever the interpreter has no exact model for makes the instance UNDECIDED, never an alarm.
+"""
+import itertools
+import re
+
 import harness
-from facts import (norm, call_name, short, subnodes, lit_value, matches_on, arm_variants, field_reads, peel_ty, lit_table,
-                   matches_on_type)
+from facts import (norm, call_name, short, subnodes, lit_value, matches_on, AnchorMissing)
 from prov import Prov, has_field, has_call
-from templates import variant_table, first_match, enclosing_contexts, recursion_discipline
-from tsrules import nulltable_bottom_up, nulltable_top_down, namespace_targets, all_elements
+from templates import (variant_table, enclosing_contexts, recursion_discipline, inlined, method_chain)
 
 PR = "nitrogql_printer::"
 OT = PR + "operation_type_printer::"
-TS_T = "graphql_type_system::r#type::Type"
 A = "nitrogql_ast::"
-TSD = "graphql_type_system::definitions::"
+TS = "graphql_type_system::"
+TSD = TS + "definitions::"
+ST = OT + "selection_tree::"
+BC = OT + "branching::BranchingCondition"
+
+# functions this property (and C01) anchors: a callee that is *not* in this list is a helper and is looked through
+ANCHORS = [OT + "type_printer::" + n for n in (
+    "get_type_for_selection_set", "type_to_selection_tree", "generate_branching_conditions", "get_boolean_variables",
+    "get_object_type_for_selection_set", "get_fields_for_selection_set", "check_skip_directive", "check_fragment_condition")] + [
+    OT + "deep_merge::" + n for n in ("deep_merge_selection_tree", "merge_fields", "merge_selection_trees")] + [
+    OT + "selection_tree::to_ts::" + n for n in ("generate_selection_tree_type", "generate_selection_tree_type_impl", "field_to_type",
+                                               "map_to_tstype", "map_to_tstype_impl")] + [
+    OT + "selection_set_visitor::visit_fields_in_selection_set", OT + "selection_set_visitor::visit_fields_in_selection_set_impl",
+    PR + "utils::interface_implementers", PR + "ts_types::ts_types_util::ts_union", PR + "ts_types::fast_equal::fast_equal"]
+_PRED = {}
+# adaptors / in-place operations that drop elements whatever their arguments (a predicate-driven `filter` is not in this list: whether
+# it drops anything depends on the predicate)
+TRUNCATING = {"skip", "skip_while", "take", "take_while", "step_by", "map_while", "nth", "last", "truncate", "drain", "remove", "pop", "clear",
+              "swap_remove", "split_off", "dedup", "dedup_by", "dedup_by_key", "unique_by", "peekable_skip"}
 
 
+def _inl(P, f):
+    """`f` with the bodies of its helper callees attached (templates.inlined), anchors of the property excluded"""
+    if id(P) not in _PRED:
+        paths = set()
+        for a in ANCHORS:
+            try:
+                g = P.fn(a, required=False)
+            except AnchorMissing:
+                g = None
+            if g is not None:
+                paths.add(g.path)
+        _PRED[id(P)] = lambda g, paths=paths: g.path not in paths
+    return inlined(P, f, pred=_PRED[id(P)])
+
+
+def _sections(P, R, rule, *parts):
+    """each part has its own anchors: one that cannot be resolved leaves only that part undecided"""
+    for part in parts:
+        try:
+            part(P, R)
+        except AnchorMissing as e:
+            R.undecided(rule, "anchor:" + part.__name__.lstrip("_"), "kind=anchor-missing: %s (this part of the rule is not evaluated on this shape of the code)" % e)
+
+
+def _tri(R, rule, key, verdict, ok="", bad="", und="", loc=None):
+    """verdict: True -> HOLDS, False -> VIOLATED, None -> UNDECIDED"""
+    if verdict is True:
+        R.holds(rule, key, ok, loc)
+    elif verdict is False:
+        R.violated(rule, key, bad or ok, loc)
+    else:
+        R.undecided(rule, key, und or ("not decided on this shape of the code: " + ok), loc)
+
+
+# =================================================================================================================== R02-a
 def r02a(P, R):
-    impl = P.fn(OT + "selection_tree::to_ts::map_to_tstype_impl")
-    wrap = P.fn(OT + "selection_tree::to_ts::map_to_tstype")
-    nulltable_bottom_up(P, R, "R02-a", impl, wrap, "Type")
-    g = P.fn(OT + "selection_tree::to_ts::generate_selection_tree_type_impl")
-    nulltable_top_down(P, R, "R02-a", g, "SelectionTree", "is_non_null", True, ("List", "Object"))
-    # entry starts nullable
-    e = P.fn(OT + "selection_tree::to_ts::generate_selection_tree_type")
-    calls = [c for c in e.walk() if c.get("k") == "Call" and call_name(c) == g.path]
-    ok = len(calls) == 1 and lit_value(calls[0]["args"][2]) is False
-    R.check("R02-a", "nulltable:entry", ok, "the root starts as nullable (only a NonNull wrapper removes `| null`)", "entry flag is not `false`", loc=e.loc())
-    # Type -> SelectionTree keeps wrappers 1:1
-    t = P.fn(OT + "type_printer::type_to_selection_tree")
-    for m in matches_on(t, "Type"):
-        tab = variant_table(m)
-        want = {"Named": "Object", "List": "List", "NonNull": "NonNull"}
-        for k, w in want.items():
-            arm = tab.get(k)
-            got = [norm(x.get("def", "")).split("::")[-1] for x in subnodes(arm["body"]) if x.get("k") == "Path" and "SelectionTree::" in norm(x.get("def", ""))] if arm else []
-            R.check("R02-a", "wrappers:" + k, got[:1] == [w], "%s -> SelectionTree::%s" % (k, w), "Type::%s is turned into SelectionTree::%s" % (k, got[:1]), loc=t.loc())
-    # nested object fields: wrapper of the field type is used (field_def.type passed)
-    gf = P.fn(OT + "type_printer::get_fields_for_selection_set")
-    pv = Prov(gf)
-    calls = [c for c in gf.walk() if c.get("k") == "Call" and (call_name(c) or "").endswith("type_printer::get_type_for_selection_set")]
-    R.floor("R02-a", "nested selection typing", len(calls), 1)
-    for c in calls:
-        ok = any(x[0] == "field" and x[2] == "type" and x[1] == TSD + "Field" for x in pv.atoms(c["args"][2]))
-        R.check("R02-a", "nested-field-type", ok, "a nested selection is typed with the schema type of its field (wrappers included)",
-                "nested selections are not typed from the field definition's type", loc=gf.loc())
-    leafs = [n for n in gf.walk() if n.get("k") == "Struct" and "rest" not in n and norm(n.get("adt", "")).endswith("SelectionTreeLeaf")]
-    R.floor("R02-a", "leaf constructions", len(leafs), 2)
-    ok = any(any(x[0] == "field" and x[2] == "type" and x[1] == TSD + "Field" for x in pv.atoms([f for f in l["fields"] if f["name"] == "type"][0]["e"])) for l in leafs)
-    R.check("R02-a", "leaf-field-type", ok, "a leaf carries exactly its schema field type", "leaf types do not come from the field definition", loc=gf.loc())
+    _sections(P, R, "R02-a", _a_leaf_nullability, _a_tree_nullability, _a_field_kinds, _a_wrappers)
 
 
+LEAF_TYPES = ("String", "String!", "[String]", "[String!]", "[String]!", "[String!]!", "[[String]!]", "[[String!]]!")
+
+
+def _a_leaf_nullability(P, R):
+    """leaf field of GraphQL type T -> TypeScript type: `| null` exactly where T has no Non-Null wrapper, at every list depth"""
+    S = _scn(P)
+    f = S.to_ts
+    fields = {"f%d" % i: ("leaf", _ty(t), False) for i, t in enumerate(LEAF_TYPES)}
+    tree = ("NonNull", ("Object", frozenset({("User", frozenset(fields.items()), frozenset())})))
+    st, got = S.run_ts(tree)
+    for i, t in enumerate(LEAF_TYPES):
+        key = "nulltable:" + t
+        want = _o_ts_leaf(_ty(t))
+        if st != "ok":
+            _scenario_failed(R, "R02-a", key, st, got, "the TypeScript type of a leaf of type %s" % t, f)
+            continue
+        have = _ts_field(_any_target(got), "f%d" % i)
+        want = _any_target(want)
+        _tri(R, "R02-a", key, None if have is None else have == (want, False),
+             "run: a leaf of type %s is typed %s" % (t, _show_ts(want)),
+             "run: %s types a leaf field of GraphQL type %s as %s, the spec table gives %s (a type is nullable unless wrapped in Non-Null, list "
+             "elements are decided afresh): %s" % (f.path, t, _show_ts(have[0]) if have else "?", _show_ts(want), _null_diff(have[0] if have else None, want)),
+             "run: the field f%d was not found in the produced object type" % i, loc=f.loc())
+
+
+def _a_tree_nullability(P, R):
+    S = _scn(P)
+    f = S.to_ts
+    br = frozenset({("User", frozenset({("id", ("leaf", _ty("String!"), False))}), frozenset())})
+    for t in ("User", "User!", "[User]", "[User!]", "[User]!", "[User!]!", "[[User]!]"):
+        tree = _wrap_tree(_ty(t), ("Object", br))
+        st, got = S.run_ts(tree)
+        key = "nulltable:selection:" + t
+        if st != "ok":
+            _scenario_failed(R, "R02-a", key, st, got, "the TypeScript type of an object selection of type %s" % t, f)
+            continue
+        got, want = _any_target(got), _any_target(_o_ts_tree(tree))
+        _tri(R, "R02-a", key, got == want, "run: an object selection of type %s is typed %s" % (t, _show_ts(want)),
+             "run: %s types an object selection of GraphQL type %s as %s, the spec table gives %s: %s"
+             % (f.path, t, _show_ts(got), _show_ts(want), _null_diff(got, want)), loc=f.loc())
+
+
+def _a_field_kinds(P, R):
+    """the three kinds of tree fields and the two key spaces (unaliased / aliased) arrive in the TypeScript type where they belong"""
+    S = _scn(P)
+    f = S.to_ts
+    leaf = ("leaf", _ty("String"), False)
+    inner = ("List", ("Object", frozenset({("Bot", frozenset({("id", ("leaf", _ty("String!"), False)), ("gone", ("empty",))}), frozenset())})))
+    tree = ("NonNull", ("Object", frozenset({
+        ("User", frozenset({("kept", leaf), ("omitted", ("empty",)), ("nested", ("obj", inner))}), frozenset({("renamed", leaf), ("dropped", ("empty",))})),
+        ("Bot", frozenset({("kept", leaf)}), frozenset())})))
+    st, got = S.run_ts(tree)
+    if st != "ok":
+        _scenario_failed(R, "R02-a", "to-ts:field-kinds", st, got, "the TypeScript type of a selection with omitted, leaf and object fields", f)
+        return
+    got, want = _any_target(got), _any_target(_o_ts_tree(tree))
+    _tri(R, "R02-a", "to-ts:field-kinds", got == want,
+         "run: an omitted field is `key?: never`, a leaf its scalar type, an object field the type of its selection; unaliased and aliased keys stay apart",
+         "run: %s types a selection with omitted / leaf / object fields as %s; expected %s (an omitted field is `key?: never`, selected fields "
+         "are required, unaliased keys go to the second and aliased keys to the third argument of __SelectionSet)" % (f.path, _show_ts(got), _show_ts(want)), loc=f.loc())
+
+
+def _a_wrappers(P, R):
+    """Type -> SelectionTree keeps the wrappers 1:1; leaves and nested selections carry the schema type of their field"""
+    S = _scn(P)
+    for t in ("User", "User!", "[User]", "[User!]!", "[[User]!]"):
+        _scenario(R, "R02-a", "wrappers:" + t, S, t, "{ id }", "List / Non-Null wrappers of the parent type are carried into the selection tree one to one")
+    _scenario(R, "R02-a", "leaf-field-type", S, "User", "{ id name tags matrix }", "a leaf carries exactly the schema type of its field (wrappers included)")
+    _scenario(R, "R02-a", "nested-field-type", S, "User", "{ friends { id } best { id } owner: pet { __typename } }",
+              "a nested selection is typed with the schema type of its field (wrappers included)")
+
+
+# =================================================================================================================== R02-b
 def r02b(P, R):
-    f = P.fn(OT + "selection_tree::to_ts::field_to_type")
+    _sections(P, R, "R02-b", _b_run, _b_literal_source, _b_branch_name, _b_flag)
+
+
+def _b_run(P, R):
+    S = _scn(P)
+    _scenario(R, "R02-b", "typename-flag:run", S, "Node", "{ __typename t: __typename n: id }",
+              "the `__typename` meta field is recognised by its field name, with or without an alias, and nothing else is")
+    # to_ts: the literal is the branch's object type
+    br = frozenset({(o, frozenset({("__typename", ("leaf", None, True))}), frozenset({("t", ("leaf", None, True)), ("n", ("leaf", _ty("String"), False))}))
+                    for o in ("User", "Bot")})
+    tree = ("NonNull", ("Object", br))
+    st, got = S.run_ts(tree)
+    if st != "ok":
+        _scenario_failed(R, "R02-b", "typename-literal:run", st, got, "the type of `__typename` in each branch", S.to_ts)
+    else:
+        got, want = _any_target(got), _any_target(_o_ts_tree(tree))
+        _tri(R, "R02-b", "typename-literal:run", got == want, "run: `__typename` is the string literal of the branch's own object type",
+             "run: %s types the branches User | Bot of `{ __typename t: __typename n: id }` as %s, expected %s: the `__typename` literal must be the "
+             "branch's object type name and only flagged leaves get it" % (S.to_ts.path, _show_ts(got), _show_ts(want)), loc=S.to_ts.loc())
+
+
+def _b_literal_source(P, R):
+    f = _inl(P, P.fn(OT + "selection_tree::to_ts::field_to_type"))
     pv = Prov(f)
     lits = [c for c in f.walk() if c.get("k") == "Call" and norm(c.get("callee", "")).endswith("TSType::StringLiteral")]
     R.floor("R02-b", "__typename literal site", len(lits), 1)
     for c in lits:
-        R.check("R02-b", "typename-literal-source", ("param", "parent_type_name") in pv.atoms(c["args"][0]),
+        if "parent_type_name" not in pv.params.values() or len(c["args"]) != 1:
+            R.undecided("R02-b", "typename-literal-source", "field_to_type no longer has the parameter `parent_type_name` (the run instance "
+                        "typename-literal:run decides the behaviour)", loc=f.loc())
+            continue
+        a = pv.deep_atoms(c["args"][0])
+        R.check("R02-b", "typename-literal-source", ("param", "parent_type_name") in a or has_field(a, ST + "SelectionTreeBranch", "type_name"),
                 "the __typename literal is the branch's object type name", "the __typename literal is not the branch's object type", loc=f.loc())
-    g = P.fn(OT + "selection_tree::to_ts::generate_selection_tree_type_impl")
+    g = _inl(P, P.fn(OT + "selection_tree::to_ts::generate_selection_tree_type_impl"))
     pvg = Prov(g)
-    calls = [c for c in g.walk() if c.get("k") == "Call" and call_name(c) == f.path]
+    target = P.fn(OT + "selection_tree::to_ts::field_to_type").path
+    calls = [c for c in g.walk() if c.get("k") == "Call" and call_name(c) == target]
     R.floor("R02-b", "field_to_type calls", len(calls), 2)
-    BR = OT + "selection_tree::SelectionTreeBranch"
+    BR = ST + "SelectionTreeBranch"
     for i, c in enumerate(calls):
-        R.check("R02-b", "typename-branch:%d" % i, has_field(pvg.atoms(c["args"][2]), BR, "type_name"), "parent name = branch.type_name",
+        if len(c["args"]) != 3:
+            R.undecided("R02-b", "typename-branch:%d" % i, "field_to_type is called with %d arguments (3 on the reference tree)" % len(c["args"]), loc=g.loc())
+            continue
+        R.check("R02-b", "typename-branch:%d" % i, has_field(pvg.deep_atoms(c["args"][2]), BR, "type_name"), "parent name = branch.type_name",
                 "field_to_type is not given branch.type_name", loc=g.loc())
-    go = P.fn(OT + "type_printer::get_object_type_for_selection_set")
+
+
+def _b_branch_name(P, R):
+    go = _inl(P, P.fn(OT + "type_printer::get_object_type_for_selection_set"))
     pvo = Prov(go)
+    BR = ST + "SelectionTreeBranch"
     brs = [n for n in go.walk() if n.get("k") == "Struct" and "rest" not in n and norm(n.get("adt", "")) == BR]
     R.floor("R02-b", "branch constructions", len(brs), 1)
     for b in brs:
-        e = [x for x in b["fields"] if x["name"] == "type_name"][0]["e"]
-        a = pvo.atoms(e)
-        ok = has_field(a, OT + "branching::BranchingCondition", "parent_obj") and has_field(a, TSD + "ObjectDefinition", "name")
+        e = [x for x in b["fields"] if x["name"] == "type_name"]
+        if not e:
+            R.undecided("R02-b", "branch-name-source", "the branch literal has no `type_name` field", loc=go.loc())
+            continue
+        a = pvo.deep_atoms(e[0]["e"])
+        ok = has_field(a, BC, "parent_obj") and has_field(a, TSD + "ObjectDefinition", "name")
         R.check("R02-b", "branch-name-source", ok, "branch.type_name = the concrete object type of the branching condition",
                 "branch.type_name is not the branching condition's object type", loc=go.loc())
-    # which leaf is `__typename` must be decided by the *field name*, not by the response key (alias)
-    gf = P.fn(OT + "type_printer::get_fields_for_selection_set")
+
+
+def _b_flag(P, R):
+    """which leaf is `__typename` must be decided by the *field name*, not by the response key (alias)"""
+    f = _inl(P, P.fn(OT + "selection_tree::to_ts::field_to_type"))
+    pv = Prov(f)
+    gf = _inl(P, P.fn(OT + "type_printer::get_fields_for_selection_set"))
     pvf = Prov(gf)
-    leaf_adt = OT + "selection_tree::SelectionTreeLeaf"
+    leaf_adt = ST + "SelectionTreeLeaf"
     name_atoms = set()
     for l in gf.walk():
         if l.get("k") == "Struct" and "rest" not in l and norm(l.get("adt", "")) == leaf_adt:
-            name_atoms |= pvf.atoms([x for x in l["fields"] if x["name"] == "name"][0]["e"])
-    # (after the fix) the leaf carries an `is_typename` flag: it must be true exactly under `field name == "__typename"`
+            for x in l["fields"]:
+                if x["name"] == "name":
+                    name_atoms |= pvf.atoms(x["e"])
     acc = gf.nodes()
     for i, (l, _) in enumerate(acc):
         if l.get("k") == "Struct" and "rest" not in l and norm(l.get("adt", "")) == leaf_adt:
@@ -92,13 +246,17 @@ def r02b(P, R):
             v = lit_value(flag[0]["e"])
             guards = [c for c in enclosing_contexts(gf, i) if c[0] == "if-then" and any(lit_value(y) == "__typename" for y in subnodes(c[1]["cond"]))]
             if v is True:
-                ok = bool(guards) and all(has_field(pvf.atoms(g[1]["cond"]), A + "selection_set::Field", "name")
-                                          and not has_field(pvf.atoms(g[1]["cond"]), A + "selection_set::Field", "alias") for g in guards)
+                if not guards:
+                    R.undecided("R02-b", "typename-flag:true", "a leaf is flagged `is_typename: true` outside an `if .. == \"__typename\"` (the run "
+                                "instance typename-flag:run decides the behaviour)", loc=gf.loc())
+                    continue
+                ok = all(has_field(pvf.atoms(g[1]["cond"]), A + "selection_set::Field", "name")
+                         and not has_field(pvf.atoms(g[1]["cond"]), A + "selection_set::Field", "alias") for g in guards)
                 R.check("R02-b", "typename-flag:true", ok, "is_typename is set under `field.name == \"__typename\"` (alias not consulted)",
                         "a leaf is marked as the __typename meta field on a path not guarded by the *field name* being `__typename`", loc=gf.loc())
-            else:
-                R.check("R02-b", "typename-flag:false", not guards and v is False, "ordinary leaves are not marked",
-                        "an ordinary leaf is marked as __typename", loc=gf.loc())
+            elif v is False:
+                R.check("R02-b", "typename-flag:false", not guards, "ordinary leaves are not marked",
+                        "an ordinary leaf is built under the `== \"__typename\"` test but not marked", loc=gf.loc())
     conds = [x for x in f.walk() if x.get("k") == "Binary" and x.get("op") == "==" and lit_value(x["r"]) == "__typename"]
     keyed_by_leaf_name = any(has_field(pv.atoms(c["l"]), leaf_adt, "name") for c in conds)
     alias_flows = has_field(name_atoms, A + "selection_set::Field", "alias")
@@ -109,168 +267,2496 @@ def r02b(P, R):
             "object-name literal", loc=f.loc())
 
 
+# =================================================================================================================== R02-c
 def r02c(P, R):
+    _sections(P, R, "R02-c", _c_targets, _c_run)
+
+
+def _c_targets(P, R):
     for name, floor in (("generate_selection_tree_type_impl", 1), ("field_to_type", 1)):
-        f = P.fn(OT + "selection_tree::to_ts::" + name)
-        namespace_targets(P, R, "R02-c", f, "OperationOutput", floor)
+        f = _inl(P, P.fn(OT + "selection_tree::to_ts::" + name))
+        _namespace_targets(P, R, "R02-c", f, "OperationOutput", floor)
 
 
+def _namespace_targets(P, R, rule, fn, want_target, floor):
+    """every TSType::NamespaceMember3 built in `fn` (helpers included) carries TypeTarget::<want_target>"""
+    n = 0
+    pv = Prov(fn)
+    for c in fn.walk():
+        if c.get("k") == "Call" and norm(c.get("callee", "")).endswith("TSType::NamespaceMember3") and len(c["args"]) == 3:
+            n += 1
+            a = pv.deep_atoms(c["args"][1])
+            targets = {x[1].split("::")[-1] for x in a if x[0] == "def" and "type_target::TypeTarget::" in x[1]}
+            key = "namespace:%s#%d" % (short(fn.path), n)
+            if not targets:
+                R.undecided(rule, key, "the namespace of a schema reference in %s is not a TypeTarget constant (the run instance decides it)" % fn.path, loc=fn.loc())
+                continue
+            R.check(rule, key, targets == {want_target}, "refers to the %s namespace" % want_target,
+                    "%s builds a schema reference into namespace %s; this position must use %s" % (fn.path, sorted(targets), want_target), loc=fn.loc())
+    R.floor(rule, "namespace references in " + short(fn.path), n, floor)
+
+
+def _c_run(P, R):
+    S = _scn(P)
+    tree = _o_tree_for(S, "Node", "{ id ... on User { best { id } } }")
+    st, got = S.run_ts(tree)
+    if st != "ok":
+        _scenario_failed(R, "R02-c", "namespace:run", st, got, "the namespaces referred to by a result type", S.to_ts)
+        return
+    targets = sorted(_ts_targets(got))
+    _tri(R, "R02-c", "namespace:run", targets == ["OperationOutput"], "run: every schema reference of a result type is in the OperationOutput namespace",
+         "run: %s refers to namespace(s) %s in a result type; results are typed by OperationOutput only" % (S.to_ts.path, targets), loc=S.to_ts.loc())
+
+
+# =================================================================================================================== R02-d
 def r02d(P, R):
     f = P.fn("<" + A + "type_system::ObjectTypeDefinition as " + PR + "schema_type_printer::type_printer::TypePrinter>::print_type")
-    all_elements(P, R, "R02-d", f, A + "type_system::ObjectTypeDefinition", "fields", "object fields (a missing key is dropped by Extract<keyof Orig, keyof Obj>)")
-    pv = Prov(f)
-    lits = [x.get("v") for x in f.walk() if x.get("k") == "Lit" and x.get("lk") == "str"]
-    R.check("R02-d", "typename-key", "__typename" in lits, "object declarations list __typename", "object declarations do not list __typename", loc=f.loc())
-    sl = [c for c in f.walk() if c.get("k") == "Call" and norm(c.get("callee", "")).endswith("TSType::StringLiteral")]
-    ok = bool(sl) and has_field(pv.atoms(sl[0]["args"][0]), A + "type_system::ObjectTypeDefinition", "name")
-    R.check("R02-d", "typename-value", ok, "__typename: \"<object name>\"", "__typename literal is not the object's name", loc=f.loc())
+    fi = _inl(P, f)
+    _all_elements(P, R, "R02-d", fi, A + "type_system::ObjectTypeDefinition", "fields", "object fields (a missing key is dropped by Extract<keyof Orig, keyof Obj>)")
+    pv = Prov(fi)
+    lits = [x.get("v") for x in fi.walk() if x.get("k") == "Lit" and x.get("lk") == "str"]
+    _tri(R, "R02-d", "typename-key", True if "__typename" in lits else None, "object declarations list __typename",
+         und="no `__typename` literal in %s or its helpers: where the key is emitted is not recognised" % f.path, loc=f.loc())
+    sl = [c for c in fi.walk() if c.get("k") == "Call" and norm(c.get("callee", "")).endswith("TSType::StringLiteral")]
+    if not sl:
+        R.undecided("R02-d", "typename-value", "no string-literal type is built in %s: the __typename member is not recognised" % f.path, loc=f.loc())
+    else:
+        ok = any(has_field(pv.deep_atoms(c["args"][0]), A + "type_system::ObjectTypeDefinition", "name") for c in sl)
+        R.check("R02-d", "typename-value", ok, "__typename: \"<object name>\"", "__typename literal is not the object's name", loc=f.loc())
 
 
-def _src_nodes(pv, e):
-    """all nodes of `e` and, transitively, of the initialisers of the locals it mentions"""
-    out, todo, seen = [], [e], set()
-    while todo:
-        n = todo.pop()
-        for y in subnodes(n):
-            out.append(y)
-            if y.get("k") == "Path" and "local" in y and y["local"] not in seen:
-                seen.add(y["local"])
-                todo.extend(src for src, _ in pv.src.get(y["local"], []) if src is not None)
-    return out
+def _all_elements(P, R, rule, fn, adt, field, what):
+    """the collection `adt.field` is consumed completely: no truncating adaptor on the chain that starts at it"""
+    found = 0
+    key = "all:%s.%s@%s" % (adt.split("::")[-1], field, short(fn.path))
+    for c in fn.walk():
+        if c.get("k") != "MethodCall":
+            continue
+        base, chain = method_chain(c)
+        if base.get("k") == "Field" and norm(base.get("adt")) == adt and base["field"] == field:
+            names = [x["method"] for x in chain]
+            found += 1
+            bad = [m for m in names if m in TRUNCATING]
+            if bad:
+                R.violated(rule, key, "%s applies %s to %s: some %s are dropped from the declaration" % (fn.path, bad, field, what), loc=fn.loc())
+                return
+            maybe = [m for m in names if m in ("filter", "filter_map", "retain")]
+            if maybe:
+                R.undecided(rule, key, "%s applies %s to %s: whether an element can be dropped is not decided" % (fn.path, maybe, field), loc=fn.loc())
+                return
+    loops = [n for n in fn.walk() if n.get("k") == "Match" and n.get("src") == "ForLoopDesugar"
+             and any(x.get("k") == "Field" and norm(x.get("adt")) == adt and x["field"] == field for x in subnodes(n["scrut"]))]
+    if found or loops:
+        R.holds(rule, key, "every element of `%s` is emitted (%s)" % (field, what), loc=fn.loc())
+    else:
+        R.undecided(rule, key, "kind=anchor-missing: no iteration over `%s.%s` found in %s or its helpers" % (adt.split("::")[-1], field, fn.path), loc=fn.loc())
 
 
+# =================================================================================================================== R02-e
 def r02e(P, R):
     """merging of same-key fields: a field skipped in one occurrence but selected in another is present"""
-    f = P.fn(OT + "deep_merge::merge_fields")
-    ms = [m for m in f.walk() if m.get("k") == "Match" and m.get("src") == "Normal" and m["scrut"].get("k") == "Tup" and not m.get("x")]
-    R.floor("R02-e", "merge table", len(ms), 1)
-    m = ms[0]
-    pv = Prov(f)
-    kinds = ("Empty", "Leaf", "Object")
-
-    def result(arm):
-        ctor = [norm(x.get("def", "")).split("::")[-1] for x in subnodes(arm["body"]) if x.get("k") == "Path" and "SelectionTreeField::" in norm(x.get("def", ""))
-                and x.get("dk", "").startswith("Ctor")]
-        side = {x[1] for x in pv.atoms(arm["body"]) if x[0] == "param"}
-        panics = any((x.get("x") or "").startswith("$crate::panic") or "panic" in (x.get("x") or "") for x in subnodes(arm["body"]))
-        return (ctor[0] if ctor else None), side, panics
-    want = {("Empty", "Empty"): ("Empty", None), ("Leaf", "Leaf"): ("Leaf", None), ("Object", "Object"): ("Object", {"left", "right"}),
-            ("Leaf", "Empty"): ("Leaf", {"left"}), ("Empty", "Leaf"): ("Leaf", {"right"}),
-            ("Object", "Empty"): ("Object", {"left"}), ("Empty", "Object"): ("Object", {"right"})}
-    for (l, r), (wk, wside) in sorted(want.items()):
-        idx = first_match(m, (l, r))
-        got = result(m["arms"][idx]) if idx is not None else (None, set(), False)
-        ok = got[0] == wk and not got[2] and (wside is None or got[1] == wside)
-        R.check("R02-e", "merge:(%s, %s)" % (l, r), ok, "-> %s" % wk,
-                "merging a %s occurrence with a %s occurrence of the same response key yields %s from %s (expected %s%s): %s"
-                % (l, r, got[0], sorted(got[1]), wk, (" from " + str(sorted(wside))) if wside else "",
-                   "a field that is selected in one of the occurrences becomes `?: never`" if got[0] == "Empty" else "wrong side kept"), loc=f.loc())
-    # deep_merge keeps the first position of a key and merges later occurrences into it
-    d = P.fn(OT + "deep_merge::deep_merge_selection_tree")
-    ok = any((call_name(c) or "") == f.path for c in d.walk() if c.get("k") == "Call")
-    R.check("R02-e", "merge-used", ok, "duplicate keys are merged through merge_fields", "deep_merge_selection_tree does not merge duplicates through merge_fields", loc=d.loc())
-    n = recursion_discipline(P, R, "R02-e", [P.fn(OT + "deep_merge::merge_selection_trees")])
-    # branch pairing: the partner of a left branch is looked up by type name over the whole right side, never by position
-    g = P.fn(OT + "deep_merge::merge_selection_trees")
-    gpv = Prov(g)
-    BR = OT + "selection_tree::SelectionTreeBranch"
-    partner = [m for m in g.walk() if m.get("k") == "Match" and not m.get("x") and m.get("src") == "Normal"
-               and "Option<" in str(m["scrut"].get("t", "")) and "SelectionTreeBranch" in str(m["scrut"].get("t", ""))
-               and not (call_name(m["scrut"]) or "").endswith("Iterator::next")]
-    R.floor("R02-e", "partner-branch lookups in merge_selection_trees", len(partner), 1)
-    POSITIONAL = ("<[T]>::get", "<[T]>::first", "<[T]>::last", "Iterator::nth", "Iterator::zip", "Iterator::enumerate", "Index::index", "Vec<T, A>::pop")
-    for m in partner:
-        a = gpv.atoms(m["scrut"])
-        calls = {x[1] for x in gpv.data_atoms(m["scrut"]) if x[0] == "call"}
-        pos = sorted(c for c in calls if any(c.endswith(p) for p in POSITIONAL))
-        indexed = any(x.get("k") == "Index" for x in _src_nodes(gpv, m["scrut"]))
-        by_key = has_call(a, "find") and has_field(a, BR, "type_name")
-        R.check("R02-e", "branch-pairing", by_key and not pos and not indexed,
-                "the right-hand partner of a branch is found by `type_name` equality over all right branches",
-                "merge_selection_trees pairs branches %s (calls: %s): when one side has several branches per object type (one per "
-                "@skip/@include assignment) a branch is merged with the wrong partner or none, and loses the other occurrence's fields"
-                % ("by position" if pos or indexed else "without comparing type_name", pos or sorted(short(c) for c in calls)), loc=g.loc())
-    # leftover right branches are appended unless a branch of the same type is already present
-    anys = [c for c in g.walk() if c.get("k") == "MethodCall" and c.get("method") == "any"]
-    ok = any(has_field(gpv.atoms(c), BR, "type_name") for c in anys)
-    from tsrules import fast_equal_sound
-    fast_equal_sound(P, R, "R02-e")
-    R.check("R02-e", "branch-leftover", ok, "right-only branches are kept (presence tested by type_name)",
-            "merge_selection_trees does not test right-only branches by type_name before appending them", loc=g.loc())
+    _sections(P, R, "R02-e", _e_table, _e_position, _e_branches, _e_pipeline, _e_recursion, _e_fast_equal)
 
 
+_MERGE_WANT = {("Empty", "Empty"): ("Empty", None), ("Leaf", "Leaf"): ("Leaf", None), ("Object", "Object"): ("Object", "both"),
+               ("Leaf", "Empty"): ("Leaf", "left"), ("Empty", "Leaf"): ("Leaf", "right"),
+               ("Object", "Empty"): ("Object", "left"), ("Empty", "Object"): ("Object", "right")}
+
+
+def _e_table(P, R):
+    """the merge table, read off by running the public entry on two occurrences of one response key"""
+    S = _scn(P)
+    f = S.merge
+
+    def mk(kind, side):
+        if kind == "Empty":
+            return _v_field("k", ("empty",))
+        if kind == "Leaf":
+            return _v_field("k", ("leaf", _ty("T" + side), False))
+        return _v_field("k", ("obj", ("NonNull", ("Object", frozenset({("A", frozenset({(side.lower(), ("leaf", _ty("String"), False))}), frozenset())})))))
+    for (l, r), (wk, wside) in sorted(_MERGE_WANT.items()):
+        key = "merge:(%s, %s)" % (l, r)
+        st, got = S.run_merge([mk(l, "L"), mk(r, "R")])
+        if st != "ok":
+            _scenario_failed(R, "R02-e", key, st, got, "merging a %s occurrence with a %s occurrence of one response key" % (l, r), f)
+            continue
+        if len(got) != 1 or got[0][0] != "k":
+            R.violated("R02-e", key, "run: %s turns two occurrences of the response key `k` (%s, %s) into %s: duplicates are not merged into "
+                       "one field" % (f.path, l, r, [_show_field(x) for x in got]), loc=f.loc())
+            continue
+        fld = got[0][1]
+        kind = {"empty": "Empty", "leaf": "Leaf", "obj": "Object"}[fld[0]]
+        side = None
+        if kind == "Leaf":
+            side = {"TL": "left", "TR": "right"}.get(fld[1][1])
+        elif kind == "Object":
+            keys = {k for b in _branches_of(fld[1]) for k, _ in b[1]}
+            side = {frozenset("l"): "left", frozenset("r"): "right", frozenset("lr"): "both"}.get(frozenset(keys), "neither")
+        ok = kind == wk and (wside is None or side == wside)
+        R.check("R02-e", key, ok, "run: -> %s%s" % (wk, (" of the %s occurrence" % wside) if wside in ("left", "right") else ""),
+                "run: merging a %s occurrence with a %s occurrence of the same response key yields %s%s (expected %s%s): %s"
+                % (l, r, kind, (" from " + side) if side else "", wk, (" from " + wside) if wside else "",
+                   "a field that is selected in one of the occurrences becomes `?: never`" if kind == "Empty" else "the wrong occurrence is kept"), loc=f.loc())
+
+
+def _e_position(P, R):
+    """duplicates are merged into the first position, distinct keys are all kept"""
+    S = _scn(P)
+    f = S.merge
+    leaf = lambda k, t="String": _v_field(k, ("leaf", _ty(t), False))
+    st, got = S.run_merge([leaf("x", "T1"), _v_field("y", ("empty",)), leaf("z"), leaf("y", "T2"), _v_field("x", ("empty",))])
+    if st != "ok":
+        _scenario_failed(R, "R02-e", "merge-used", st, got, "de-duplication of response keys", f)
+        return
+    want = [("x", ("leaf", _ty("T1"), False)), ("y", ("leaf", _ty("T2"), False)), ("z", ("leaf", _ty("String"), False))]
+    R.check("R02-e", "merge-used", sorted(got) == sorted(want), "run: duplicate keys are merged through the merge table, distinct keys are kept",
+            "run: %s([x: T1, y: empty, z, y: T2, x: empty]) = %s; expected one field per key with x: T1, y: T2, z" % (f.path, [_show_field(x) for x in got]), loc=f.loc())
+
+
+def _e_branches(P, R):
+    """branches of two occurrences of an object field are paired by object type, never by position; branches present on one side only are kept"""
+    S = _scn(P)
+    f = S.merge
+    lf = lambda k: (k, ("leaf", _ty("String"), False))
+    L = ("NonNull", ("List", ("Object", (("A", frozenset({lf("a1")}), frozenset({lf("p1")})), ("B", frozenset({lf("b1")}), frozenset())))))
+    Rt = ("NonNull", ("List", ("Object", (("B", frozenset({lf("b2")}), frozenset()), ("C", frozenset({lf("c2")}), frozenset()),
+                                          ("A", frozenset({lf("a2"), lf("a1")}), frozenset({lf("p2")}))))))
+    st, got = S.run_merge([_v_field("k", ("obj", L)), _v_field("m", ("leaf", _ty("String"), False)), _v_field("k", ("obj", Rt))])
+    for key in ("branch-pairing", "branch-leftover", "merge-wrappers"):
+        if st != "ok":
+            _scenario_failed(R, "R02-e", key, st, got, "merging two occurrences of an object field whose branches come in different orders", f)
+    if st != "ok":
+        return
+    k = [x[1] for x in got if x[0] == "k"]
+    if len(k) != 1 or k[0][0] != "obj":
+        R.violated("R02-e", "branch-pairing", "run: two object occurrences of one key are not merged into one object field: %s" % [_show_field(x) for x in got], loc=f.loc())
+        return
+    tree = k[0][1]
+    wr = []
+    t = tree
+    while t[0] in ("NonNull", "List"):
+        wr.append(t[0])
+        t = t[1]
+    R.check("R02-e", "merge-wrappers", wr == ["NonNull", "List"], "run: the wrappers of the merged selection are those of the occurrences",
+            "run: merging two `NonNull(List(Object))` selections yields wrappers %s" % wr, loc=f.loc())
+    bs = {b[0]: b for b in _branches_of(tree)}
+    names = sorted(b[0] for b in _branches_of(tree))
+    want = {"A": ({"a1", "a2"}, {"p1", "p2"}), "B": ({"b1", "b2"}, set())}
+    bad = []
+    for tn, (un, al) in sorted(want.items()):
+        b = bs.get(tn)
+        have = ({k for k, _ in b[1]}, {k for k, _ in b[2]}) if b else None
+        if have != (un, al):
+            bad.append("%s has %s, expected unaliased %s / aliased %s" % (tn, "fields %s / %s" % (sorted(have[0]), sorted(have[1])) if have else "no branch", sorted(un), sorted(al)))
+    R.check("R02-e", "branch-pairing", not bad and names.count("A") == 1 and names.count("B") == 1,
+            "run: the partner of a branch is the other side's branch of the same object type, wherever it stands",
+            "run: %s merges the branches [A, B] with [B, C, A] wrongly (%s; branch names: %s): branches are paired by position or without comparing "
+            "type_name — when one side has several branches per object type (one per @skip/@include assignment) a branch is merged with the "
+            "wrong partner or none, and loses the other occurrence's fields" % (f.path, "; ".join(bad) or "duplicated branch", names), loc=f.loc())
+    c = bs.get("C")
+    R.check("R02-e", "branch-leftover", c is not None and {k for k, _ in c[1]} == {"c2"} and names.count("C") == 1,
+            "run: right-only branches are kept, once",
+            "run: the branch C, present only in the second occurrence, %s in the merged selection (branches: %s)"
+            % ("is missing" if c is None else "is changed or duplicated", names), loc=f.loc())
+
+
+def _e_pipeline(P, R):
+    S = _scn(P)
+    _scenario(R, "R02-e", "merge:same-key-leaves", S, "User",
+              "{ id x: id @skip(if: true) x: id  y: id y: id @skip(if: true)  z: id @skip(if: true) z: id @include(if: false) ... on Node { id } ... on Named { name } }",
+              "a response key selected in any occurrence is present; one that is skipped in all of them is `?: never`")
+    _scenario(R, "R02-e", "merge:same-key-objects", S, "User",
+              "{ best { id @skip(if: $a) } best { n: id ... on Bot { model } } best @skip(if: true) { zz: id } friends { id } friends { name } }",
+              "sub-selections of several occurrences of an object field are merged branch by branch")
+
+
+def _e_recursion(P, R):
+    recursion_discipline(P, R, "R02-e", [P.fn(OT + "deep_merge::merge_selection_trees")])
+
+
+def _e_fast_equal(P, R):
+    _fast_equal_sound(P, R, "R02-e")
+
+
+def _fast_equal_sound(P, R, rule):
+    """`fast_equal(a, b) == true` must imply the two TypeScript types are the same type: it licenses `dedup_by(fast_equal)` in
+    ts_union / ts_intersection, where a false `true` silently removes a member (a variable, a branch). Per arm: both patterns name the
+    same variant, every bound component takes part in the result, and object members are compared on key, type, readonly and optional
+    if they are compared at all."""
+    f0 = P.fn("nitrogql_printer::ts_types::fast_equal::fast_equal")
+    f = _inl(P, f0)
+    ms = [m for m in f.walk() if m.get("k") == "Match" and not m.get("x") and m["scrut"].get("k") == "Tup"]
+    R.floor(rule, "fast_equal table", len(ms), 1)
+    if not ms:
+        return
+    OF = "nitrogql_printer::ts_types::ObjectField"
+    n = 0
+    for arm in ms[0]["arms"]:
+        pat, body = arm["pat"], arm["body"]
+        while body.get("k") == "BlockExpr" and not body["b"].get("stmts") and body["b"].get("tail"):
+            body = body["b"]["tail"]
+        v = lit_value(body)
+        if v is False and not arm.get("guard"):
+            continue
+        n += 1
+        if pat.get("k") != "Tuple" or len(pat.get("ps", [])) != 2:
+            if v is True:
+                R.violated(rule, "fast-equal:catch-all", "fast_equal answers `true` for a catch-all pattern: unrelated types compare equal", loc=f.loc())
+            else:
+                R.undecided(rule, "fast-equal:catch-all", "fast_equal computes its answer under a catch-all pattern; the comparison is not recognised", loc=f.loc())
+            continue
+        l, r = pat["ps"]
+        lv, rv = norm(l.get("ctor_of") or l.get("def") or ""), norm(r.get("ctor_of") or r.get("def") or "")
+        name = lv.split("::")[-1] or "?"
+        if not lv or not rv:
+            R.undecided(rule, "fast-equal:%s" % name, "an arm of fast_equal that can answer true does not name a variant on both sides", loc=f.loc())
+            continue
+        if lv != rv:
+            R.violated(rule, "fast-equal:%s" % name, "fast_equal can answer true for two different variants (%s vs %s)" % (lv, rv), loc=f.loc())
+            continue
+        binds = [b for b in subnodes(pat) if b.get("k") == "Binding"]
+        used = {y.get("local") for y in subnodes(body) if y.get("k") == "Path" and "local" in y}
+        wild = [w for w in subnodes(pat) if w.get("k") == "Wild"]
+        unused = [b["name"] for b in binds if b["local"] not in used]
+        ok = not unused and not (wild and v is not False)
+        reads = {y["field"] for y in subnodes(body) if y.get("k") == "Field" and norm(y.get("adt", "")) == OF}
+        need = {"key", "type", "readonly", "optional"}
+        if reads and not need <= reads:
+            ok = False
+            why = "object members are compared on %s only (missing %s): two objects with different %s are `equal`" % (sorted(reads), sorted(need - reads), sorted(need - reads))
+        else:
+            why = "components %s do not take part in the comparison" % (unused or "behind `_`")
+        R.check(rule, "fast-equal:%s" % name, ok, "%s: all components compared" % name, "fast_equal(%s, %s): %s, so dedup_by(fast_equal) can drop a "
+                "member that is not a duplicate" % (name, name, why), loc=f.loc())
+    R.floor(rule, "fast_equal arms that can answer true", n, 10)
+
+
+# =================================================================================================================== R02-f
 def r02f(P, R):
     """only possible (type, variables) branches: type-condition filter and skip/include tables"""
-    f = P.fn(OT + "type_printer::check_fragment_condition")
+    _sections(P, R, "R02-f", _f_condition_table, _f_condition_runs, _f_skip_runs, _f_variable_runs, _f_possible_types)
+
+
+def _f_condition_table(P, R):
+    f0 = P.fn(OT + "type_printer::check_fragment_condition")
+    f = _inl(P, f0)
     pv = Prov(f)
-    for m in matches_on(f, "TypeDefinition"):
+    ms = matches_on(f, "TypeDefinition")
+    if not ms:
+        R.undecided("R02-f", "type-condition:table", "no `match` over TypeDefinition in %s or its helpers (the run instances type-condition:*:run "
+                    "decide the behaviour)" % f0.path, loc=f0.loc())
+    for m in ms[:1]:
         tab = variant_table(m)
         need = {"Object": [(TSD + "ObjectDefinition", "name")], "Interface": [(TSD + "ObjectDefinition", "interfaces"), (TSD + "InterfaceDefinition", "name")],
                 "Union": [(TSD + "UnionDefinition", "possible_types"), (TSD + "ObjectDefinition", "name")]}
         for k, fields in sorted(need.items()):
-            arm = tab.get(k)
-            a = pv.atoms(arm["body"]) if arm else set()
-            ok = arm is not None and ("param", "object_def") in a and all(has_field(a, ad, fl) for ad, fl in fields)
+            arm = tab.get(k) or tab.get("_")
+            if arm is None:
+                R.undecided("R02-f", "type-condition:" + k, "no arm for %s conditions found" % k, loc=f0.loc())
+                continue
+            if "object_def" not in pv.params.values():
+                R.undecided("R02-f", "type-condition:" + k, "check_fragment_condition no longer has the parameter `object_def` (the run instances decide)", loc=f0.loc())
+                continue
+            a = pv.deep_atoms(arm["body"])
+            ok = ("param", "object_def") in a and all(has_field(a, ad, fl) for ad, fl in fields)
             R.check("R02-f", "type-condition:" + k, ok, "a %s condition is compared with the branch's object type" % k,
                     "check_fragment_condition does not relate a %s type condition to the branch's concrete object type: fragments on that "
-                    "kind are applied to every branch (keys appear in types of objects that never have them)" % k, loc=f.loc())
+                    "kind are applied to every branch (keys appear in types of objects that never have them)" % k, loc=f0.loc())
         for k in ("Scalar", "Enum", "InputObject"):
-            arm = tab.get(k)
-            R.check("R02-f", "type-condition:" + k, arm is not None and lit_value(arm["body"]) is False, "never applies", "%s conditions apply" % k, loc=f.loc())
-    gf = P.fn(OT + "type_printer::get_fields_for_selection_set")
-    # both named spreads and conditioned inline fragments are filtered by check_fragment_condition
-    calls = [c for c in gf.walk() if c.get("k") == "Call" and call_name(c) == f.path]
-    R.check("R02-f", "type-condition:sites", len(calls) == 2, "fragment spreads and conditioned inline fragments are filtered",
-            "%d call(s) to check_fragment_condition (expected 2)" % len(calls), loc=gf.loc())
+            arm = tab.get(k) or tab.get("_")
+            v = lit_value(arm["body"]) if arm is not None else None
+            _tri(R, "R02-f", "type-condition:" + k, True if v is False else (False if v is True else None), "never applies", "%s conditions apply" % k,
+                 "what a %s condition evaluates to is not a literal" % k, loc=f0.loc())
+    gf = _inl(P, P.fn(OT + "type_printer::get_fields_for_selection_set"))
+    calls = [c for c in gf.walk() if c.get("k") == "Call" and call_name(c) == f0.path]
+    R.floor("R02-f", "type-condition filter calls", len(calls), 1)
     pvg = Prov(gf)
     for i, c in enumerate(calls):
-        R.check("R02-f", "type-condition:arg:%d" % i, has_field(pvg.atoms(c["args"][1]), OT + "branching::BranchingCondition", "parent_obj"),
+        if len(c["args"]) != len(f0.params):
+            continue
+        objs = [a for a, p in zip(c["args"], f0.params) if "ObjectDefinition" in str(p.get("t", ""))]
+        if len(objs) != 1:
+            R.undecided("R02-f", "type-condition:arg:%d" % i, "which argument of check_fragment_condition is the branch's object is not recognised", loc=gf.loc())
+            continue
+        R.check("R02-f", "type-condition:arg:%d" % i, has_field(pvg.deep_atoms(objs[0]), BC, "parent_obj"),
                 "compared against the branch's object", "the filter is not given the branch's object", loc=gf.loc())
-    # skip / include table
-    s = P.fn(OT + "type_printer::check_skip_directive")
-    ms = matches_on_type(s, "str")
-    R.floor("R02-f", "skip/include match", len(ms), 1)
-    for m in ms:
-        rows = lit_table(m)
-        for lits, guard, catch, arm in rows:
-            for l in lits:
-                ifs = [x for x in subnodes(arm["body"]) if x.get("k") == "If"]
-                negs = [any(y.get("k") == "Unary" and y.get("op") == "Not" for y in subnodes(i["cond"])) for i in ifs]
-                want = (l == "include")
-                R.check("R02-f", "skip-table:@" + l, len(ifs) == 2 and all(n == want for n in negs),
-                        "@%s omits the field when its condition is %s" % (l, "false" if want else "true"),
-                        "the @%s row of check_skip_directive tests %s (expected both the variable and the literal case %s)"
-                        % (l, negs, "negated" if want else "not negated"), loc=s.loc())
-                rets = [x for x in subnodes(arm["body"]) if x.get("k") == "Ret" and lit_value(x.get("e", {})) is True]
-                R.check("R02-f", "skip-table:@%s:returns" % l, len(rets) == 2, "both cases return `skipped`", "@%s does not return true in both cases" % l, loc=s.loc())
-    # every boolean variable is enumerated with both values
-    g = P.fn(OT + "type_printer::generate_branching_conditions")
-    bools = sorted(set(x.get("v") for x in g.walk() if x.get("k") == "Lit" and x.get("lk") == "bool"))
-    R.check("R02-f", "variables-both-values", bools == [False, True], "each boolean variable is branched on false and true",
-            "branching enumerates %s for boolean variables" % bools, loc=g.loc())
-    for m in matches_on(g, "TypeDefinition"):
+
+
+def _f_condition_runs(P, R):
+    S = _scn(P)
+    _scenario(R, "R02-f", "type-condition:Object:run", S, "Node", "{ id ... on User { name } ... on Org { o: id } }",
+              "a fragment on an object type contributes to the branch of that object only")
+    _scenario(R, "R02-f", "type-condition:Interface:run", S, "Thing", "{ ... on Node { id } ... on Named { n: name } }",
+              "a fragment on an interface contributes to the branches of its implementers only (every interface of an object counts)")
+    _scenario(R, "R02-f", "type-condition:Union:run", S, "Node", "{ ... on Actor { ... on Node { a: id } } ... on Thing { ... on Node { t: id } } }",
+              "a fragment on a union contributes to the branches of its members only (every member counts)")
+    _scenario(R, "R02-f", "type-condition:sites", S, "Node", "{ ...OnBot ...OnNamed ...OnBotId ... { x: id } ... on Node { ... on Bot { y: id } ...OnNamed u: id } }",
+              "fragment spreads and conditioned inline fragments are filtered by their type condition, at every nesting depth; an inline "
+              "fragment without condition always applies")
+
+
+def _f_skip_runs(P, R):
+    S = _scn(P)
+    _scenario(R, "R02-f", "skip-table:@skip", S, "User", "{ a: id @skip(if: $v) b: id @include(if: $v) c: id @skip(if: true) d: id @skip(if: false) }",
+              "@skip omits the field exactly when its condition (variable or literal) is true")
+    _scenario(R, "R02-f", "skip-table:@include", S, "User", "{ a: id @skip(if: $v) b: id @include(if: $v) e: id @include(if: true) f: id @include(if: false) }",
+              "@include omits the field exactly when its condition (variable or literal) is false")
+    _scenario(R, "R02-f", "skip-table:several-directives", S, "User",
+              "{ x: id @skip(if: $a) @include(if: $b) y: id @include(if: $b) @skip(if: $a) z: id @skip(if: false) w: id @skip(if: false) @include(if: false) }",
+              "every @skip/@include of a selection counts, whatever its position among the directives")
+    _scenario(R, "R02-f", "skip-table:fragments", S, "Node",
+              "{ ... @skip(if: $a) { p: id } ...OnBot @include(if: $b) ... on User @include(if: false) { q: id } ... on Named @skip(if: false) { r: id } }",
+              "a skipped fragment turns every field it contributes into `?: never`, a kept one leaves them alone")
+
+
+def _f_variable_runs(P, R, rule="R02-f"):
+    S = _scn(P)
+    _scenario(R, rule, "variables-both-values", S, "User", "{ a: id @skip(if: $v) b: id @include(if: $w) c: id @skip(if: $v) }",
+              "each boolean variable is branched on false and true, all combinations of several variables are present")
+    _scenario(R, rule, "variables-all-directives", S, "User",
+              "{ p: id @skip(if: $a) @include(if: $b) q: id @skip(if: $a) @skip(if: $b) r: id @include(if: $a) @skip(if: $c) y: id z: id @include(if: $d) }",
+              "every @skip/@include of every selection is inspected: a variable used only by a later directive or a later selection is branched on")
+    _scenario(R, rule, "variables-both-directives", S, "User", "{ a: id @skip(if: $s) b: id }", "variables of @skip are branched on")
+    _scenario(R, rule, "variables-both-directives:include", S, "User", "{ a: id @include(if: $i) b: id }", "variables of @include are branched on")
+    _scenario(R, rule, "visitor-every-selection", S, "Node",
+              "{ id ... on User @include(if: $d) { n: name @skip(if: $e) } ...OnNamedIf @skip(if: $g) ... { ... on Bot { m: model @include(if: $k) } } }",
+              "the variable enumeration sees fragment spreads, inline fragments and the selections inside them")
+    _scenario(R, rule, "variables-nested-level", S, "User", "{ id best { id @skip(if: $n) } }",
+              "a variable used only inside the selection set of a field branches that field's own selection, not the enclosing one")
+
+
+def _f_possible_types(P, R):
+    S = _scn(P)
+    _scenario(R, "R02-f", "possible-types:Object:run", S, "User", "{ id }", "an object parent has exactly its own branch")
+    _scenario(R, "R02-f", "possible-types:Interface:run", S, "Node", "{ id }", "an interface parent has one branch per implementing object, no other")
+    _scenario(R, "R02-f", "possible-types:Union:run", S, "Thing", "{ __typename }", "a union parent has one branch per member, no other")
+    g0 = P.fn(OT + "type_printer::generate_branching_conditions")
+    g = _inl(P, g0)
+    ms = matches_on(g, "TypeDefinition")
+    if not ms:
+        R.undecided("R02-f", "possible-types", "no `match` over TypeDefinition in %s or its helpers (the run instances possible-types:*:run decide "
+                    "the behaviour)" % g0.path, loc=g0.loc())
+    for m in ms[:1]:
         tab = variant_table(m)
         pvb = Prov(g)
-        ok = "Object" in tab and "Interface" in tab and "Union" in tab
-        ia = pvb.atoms(tab["Interface"]["body"]) if "Interface" in tab else set()
-        ua = pvb.atoms(tab["Union"]["body"]) if "Union" in tab else set()
-        R.check("R02-f", "possible-types", ok and has_call(ia, "utils::interface_implementers") and has_field(ua, TSD + "UnionDefinition", "possible_types"),
-                "branches = the object itself / implementers of the interface / members of the union",
-                "generate_branching_conditions does not enumerate implementers / union members", loc=g.loc())
+        ia = pvb.deep_atoms((tab.get("Interface") or tab.get("_") or {"body": None})["body"])
+        ua = pvb.deep_atoms((tab.get("Union") or tab.get("_") or {"body": None})["body"])
+        ok = (has_call(ia, "utils::interface_implementers") or has_field(ia, TSD + "ObjectDefinition", "interfaces")) and has_field(ua, TSD + "UnionDefinition", "possible_types")
+        R.check("R02-f", "possible-types", ok, "branches = the object itself / implementers of the interface / members of the union",
+                "generate_branching_conditions does not enumerate implementers / union members", loc=g0.loc())
+
+
+
+# ================================================================================================================ scenarios
+# the schema every scenario runs against (GraphQL SDL in comments; order of declaration is the schema's type order)
+_SCHEMA = [
+    ("String", "scalar"),
+    ("Node", "interface", [("id", "String!")]),                                                # interface Node { id: String! }
+    ("User", "object", [("id", "String!"), ("name", "String"), ("tags", "[String!]"), ("matrix", "[[String]!]"), ("friends", "[User!]!"),
+                        ("best", "Node"), ("pet", "Actor")], ["Node", "Named"]),                # type User implements Node & Named
+    ("Named", "interface", [("name", "String")]),                                               # interface Named { name: String }
+    ("Bot", "object", [("id", "String!"), ("model", "String"), ("owner", "User!")], ["Node"]),  # type Bot implements Node
+    ("Actor", "union", ["User", "Bot"]),                                                        # union Actor = User | Bot
+    ("Org", "object", [("id", "String!"), ("name", "String")], ["Named", "Node"]),              # type Org implements Named & Node
+    ("Page", "object", [("id", "String!"), ("title", "String")], []),                           # type Page
+    ("Thing", "union", ["Page", "Org", "User"]),                                                # union Thing = Page | Org | User
+]
+_FRAGMENTS = {"OnBot": ("Bot", "{ model }"), "OnBotId": ("Bot", "{ bid: id }"), "OnNamed": ("Named", "{ name }"), "OnNamedIf": ("Named", "{ name @include(if: $h) }")}
+_TOK = re.compile(r"\.\.\.|[{}():@$!\[\]]|[A-Za-z_][A-Za-z0-9_]*")
+
+
+def _ty(text):
+    """'[User!]!' -> ("NonNull", ("List", ("NonNull", ("Named", "User"))))"""
+    toks = _TOK.findall(text)
+    pos = [0]
+
+    def rec():
+        if toks[pos[0]] == "[":
+            pos[0] += 1
+            t = ("List", rec())
+            pos[0] += 1
+        else:
+            t = ("Named", toks[pos[0]])
+            pos[0] += 1
+        if pos[0] < len(toks) and toks[pos[0]] == "!":
+            pos[0] += 1
+            t = ("NonNull", t)
+        return t
+    return rec()
+
+
+def _show_ty(t):
+    if t is None:
+        return "-"
+    return t[1] if t[0] == "Named" else ("[%s]" % _show_ty(t[1]) if t[0] == "List" else _show_ty(t[1]) + "!")
+
+
+def _gql(text):
+    """selection set text -> [("field", alias, name, dirs, sub|None) | ("spread", name, dirs) | ("inline", cond|None, dirs, sub)];
+    dirs = [(name, None | ("var", v) | ("lit", bool))]"""
+    toks = _TOK.findall(text)
+    pos = [0]
+
+    def peek():
+        return toks[pos[0]] if pos[0] < len(toks) else None
+
+    def nxt():
+        pos[0] += 1
+        return toks[pos[0] - 1]
+
+    def directives():
+        out = []
+        while peek() == "@":
+            nxt()
+            name, v = nxt(), None
+            if peek() == "(":
+                nxt(); nxt(); nxt()   # ( if :
+                if peek() == "$":
+                    nxt()
+                    v = ("var", nxt())
+                else:
+                    v = ("lit", nxt() == "true")
+                nxt()
+            out.append((name, v))
+        return out
+
+    def selset():
+        nxt()
+        out = []
+        while peek() != "}":
+            if peek() == "...":
+                nxt()
+                if peek() == "on":
+                    nxt()
+                    cond = nxt()
+                    d = directives()
+                    out.append(("inline", cond, d, selset()))
+                elif peek() in ("@", "{"):
+                    d = directives()
+                    out.append(("inline", None, d, selset()))
+                else:
+                    name = nxt()
+                    out.append(("spread", name, directives()))
+            else:
+                name, alias = nxt(), None
+                if peek() == ":":
+                    nxt()
+                    alias, name = name, nxt()
+                d = directives()
+                out.append(("field", alias, name, d, selset() if peek() == "{" else None))
+        nxt()
+        return out
+    return selset()
+
+
+class _Oracle:
+    """GraphQL spec semantics of a selection set on the scenario schema: one branch per possible object and per assignment of the boolean
+    variables of the selection set's own level (CollectFields: §6.3.2; fragment applicability: §5.5.2; @skip/@include: §3.13)"""
+
+    def __init__(self):
+        self.defs = {d[0]: d for d in _SCHEMA}
+        self.frags = {k: (c, _gql(t)) for k, (c, t) in _FRAGMENTS.items()}
+
+    def possible(self, name):
+        d = self.defs[name]
+        if d[1] == "object":
+            return [name]
+        if d[1] == "interface":
+            return [x[0] for x in _SCHEMA if x[1] == "object" and name in x[3]]
+        if d[1] == "union":
+            return list(d[2])
+        return []
+
+    def applies(self, obj, cond):
+        return obj in self.possible(cond)
+
+    def skipped(self, dirs, env):
+        for n, v in dirs:
+            if n in ("skip", "include") and v is not None:
+                val = env[v[1]] if v[0] == "var" else v[1]
+                if val == (n == "skip"):
+                    return True
+        return False
+
+    def variables(self, sels, seen=None, out=None):
+        seen = set() if seen is None else seen
+        out = [] if out is None else out
+        for s in sels:
+            dirs = s[3] if s[0] == "field" else s[2]
+            for n, v in dirs:
+                if n in ("skip", "include") and v is not None and v[0] == "var" and v[1] not in out:
+                    out.append(v[1])
+            if s[0] == "inline":
+                self.variables(s[3], seen, out)
+            elif s[0] == "spread" and s[1] not in seen:
+                seen.add(s[1])
+                self.variables(self.frags[s[1]][1], seen, out)
+        return out
+
+    def collect(self, obj, sels, env):
+        out = []
+        for s in sels:
+            if s[0] == "field":
+                _, alias, name, dirs, sub = s
+                if self.skipped(dirs, env):
+                    f = ("empty",)
+                elif name == "__typename":
+                    f = ("leaf", None, True)
+                else:
+                    ft = _ty(dict(self.defs[obj][2])[name])
+                    f = ("leaf", ft, False) if sub is None else ("sub", ft, sub)
+                out.append((alias or name, alias is not None, f))
+            else:
+                cond, dirs, sub = (s[1], s[2], s[3]) if s[0] == "inline" else (self.frags[s[1]][0], s[2], self.frags[s[1]][1])
+                if cond is None or self.applies(obj, cond):
+                    fs = self.collect(obj, sub, env)
+                    if self.skipped(dirs, env):
+                        fs = [(k, a, ("empty",)) for k, a, _ in fs]
+                    out.extend(fs)
+        return out
+
+    def tree(self, ty, sels):
+        if ty[0] != "Named":
+            return (ty[0], self.tree(ty[1], sels))
+        vs = self.variables(sels)
+        branches = set()
+        for o in self.possible(ty[1]):
+            for asg in itertools.product((False, True), repeat=len(vs)):
+                occ = {}
+                for k, a, f in self.collect(o, sels, dict(zip(vs, asg))):
+                    occ.setdefault((a, k), []).append(f)
+                un, al = {}, {}
+                for (a, k), fs in occ.items():
+                    live = [f for f in fs if f != ("empty",)]
+                    if not live:
+                        v = ("empty",)
+                    elif live[0][0] == "leaf":
+                        v = live[0]
+                    else:
+                        v = ("obj", self.tree(live[0][1], [x for f in live if f[0] == "sub" for x in f[2]]))
+                    (al if a else un)[k] = v
+                branches.add((o, frozenset(un.items()), frozenset(al.items())))
+        return ("Object", frozenset(branches))
+
+
+def _wrap_tree(ty, obj):
+    return obj if ty[0] == "Named" else (ty[0], _wrap_tree(ty[1], obj))
+
+
+def _branches_of(tree):
+    while tree[0] in ("NonNull", "List"):
+        tree = tree[1]
+    return list(tree[1])
+
+
+def _o_tree_for(S, parent, text):
+    return S.oracle.tree(_ty(parent), _gql(text))
+
+
+# --- TypeScript side of the oracle (canonical forms: unions are flattened sets)
+def _u(*ms):
+    out = set()
+    for m in ms:
+        if m[0] == "union":
+            out |= m[1]
+        else:
+            out.add(m)
+    return next(iter(out)) if len(out) == 1 else ("union", frozenset(out))
+
+
+_NULL = ("null",)
+
+
+def _o_ts_leaf(ty, nn=False):
+    if ty[0] == "NonNull":
+        return _o_ts_leaf(ty[1], True)
+    t = ("ref", "OperationOutput", ty[1]) if ty[0] == "Named" else ("array", _o_ts_leaf(ty[1]))
+    return t if nn else _u(t, _NULL)
+
+
+def _o_ts_tree(tree, nn=False):
+    if tree[0] == "NonNull":
+        return _o_ts_tree(tree[1], True)
+    if tree[0] == "List":
+        t = ("array", _o_ts_tree(tree[1]))
+    else:
+        ms = [("selset", ("ref", "OperationOutput", b[0]), _o_ts_obj(b[1], b[0]), _o_ts_obj(b[2], b[0])) for b in tree[1]]
+        t = _u(*ms) if ms else ("never",)
+    return t if nn else _u(t, _NULL)
+
+
+def _o_ts_obj(fields, tn):
+    out = set()
+    for k, f in fields:
+        if f[0] == "empty":
+            out.add((k, (("never",), True)))
+        elif f[0] == "leaf":
+            out.add((k, ((("lit", tn) if f[2] else _o_ts_leaf(f[1])), False)))
+        else:
+            out.add((k, (_o_ts_tree(f[1]), False)))
+    return ("object", frozenset(out))
+
+
+def _nulls(t):
+    """number of `null` members anywhere in a canonical TypeScript type"""
+    if t == _NULL:
+        return 1
+    if isinstance(t, (tuple, frozenset)):
+        return sum(_nulls(x) for x in t)
+    return 0
+
+
+def _null_diff(have, want):
+    a, b = _nulls(have), _nulls(want)
+    return "`| null` is lost" if a < b else ("`| null` is invented" if a > b else "the types differ in more than nullability")
+
+
+def _any_target(t):
+    """the same type with the namespace of every schema reference blanked (R02-c decides namespaces)"""
+    if isinstance(t, frozenset):
+        return frozenset(_any_target(x) for x in t)
+    if isinstance(t, tuple):
+        if t and t[0] == "ref":
+            return ("ref", "*", t[2])
+        return tuple(_any_target(x) for x in t)
+    return t
+
+
+def _ts_targets(t, out=None):
+    out = set() if out is None else out
+    if isinstance(t, (tuple, frozenset)):
+        if isinstance(t, tuple) and t and t[0] == "ref":
+            out.add(t[1])
+        for x in t:
+            _ts_targets(x, out)
+    return out
+
+
+def _ts_field(ts, key):
+    """(type, optional) of `key` in the unaliased object of the single branch `ts`"""
+    if isinstance(ts, tuple) and ts and ts[0] == "selset":
+        for k, v in ts[2][1]:
+            if k == key:
+                return v
+    return None
+
+
+def _show_ts(t):
+    if not isinstance(t, tuple) or not t:
+        return repr(t)
+    k = t[0]
+    if k == "null":
+        return "null"
+    if k == "never":
+        return "never"
+    if k == "ref":
+        return "%s.%s" % (t[1], t[2])
+    if k == "lit":
+        return '"%s"' % t[1]
+    if k == "array":
+        return "(%s)[]" % _show_ts(t[1])
+    if k == "union":
+        return " | ".join(sorted((_show_ts(x) for x in t[1]), key=lambda s: (s == "null", s)))
+    if k == "object":
+        return "{ %s }" % "; ".join("%s%s: %s" % (a, "?" if o else "", _show_ts(b)) for a, (b, o) in sorted(t[1], key=lambda x: x[0]))
+    if k == "selset":
+        return "__SelectionSet<%s, %s, %s>" % (_show_ts(t[1]), _show_ts(t[2]), _show_ts(t[3]))
+    return str(t)
+
+
+def _show_field(kf):
+    k, f = kf
+    if f[0] == "empty":
+        return "%s: (omitted)" % k
+    if f[0] == "leaf":
+        return "%s: %s" % (k, "__typename" if f[2] else _show_ty(f[1]))
+    return "%s %s" % (k, _show_tree(f[1]))
+
+
+def _show_branch(b):
+    return "%s { %s }" % (b[0], " ".join(sorted(_show_field(x) for x in b[1]) + sorted("(alias) " + _show_field(x) for x in b[2])))
+
+
+def _show_tree(t):
+    if t[0] in ("NonNull", "List"):
+        return "%s(%s)" % (t[0], _show_tree(t[1]))
+    return "[" + ", ".join(sorted(_show_branch(b) for b in t[1])) + "]"
+
+
+def _diff_tree(got, want, path=""):
+    """first difference between two canonical trees, in words"""
+    if got[0] != want[0]:
+        return "%swrapper %s where %s is expected" % (path, got[0], want[0])
+    if got[0] in ("NonNull", "List"):
+        return _diff_tree(got[1], want[1], path)
+    g, w = set(got[1]), set(want[1])
+    if g == w:
+        return None
+    missing, extra = sorted(w - g, key=repr), sorted(g - w, key=repr)
+    # a nested difference is more telling than the enclosing branch
+    for m in missing:
+        for e in extra:
+            if m[0] == e[0] and {k for k, _ in m[1]} == {k for k, _ in e[1]} and {k for k, _ in m[2]} == {k for k, _ in e[2]}:
+                for (k, fm), (_, fe) in zip(sorted(m[1] | m[2], key=lambda x: x[0]), sorted(e[1] | e[2], key=lambda x: x[0])):
+                    if fm != fe and fm[0] == "obj" and fe[0] == "obj":
+                        d = _diff_tree(fe[1], fm[1], "%sin `%s` of %s: " % (path, k, m[0]))
+                        if d:
+                            return d
+    msg = []
+    if missing:
+        msg.append("missing branch%s %s" % ("es" if len(missing) > 1 else "", "; ".join(_show_branch(b) for b in missing[:3])))
+    if extra:
+        msg.append("impossible branch%s %s" % ("es" if len(extra) > 1 else "", "; ".join(_show_branch(b) for b in extra[:3])))
+    return path + ", ".join(msg)
+
+
+# --- interpreter values of the scenario inputs, and canonical forms of its results
+def _pos():
+    return _Opq("pos")
+
+
+def _v_ident(s):
+    return _Obj(A + "base::Ident", {"name": s, "position": _pos()})
+
+
+def _v_node(x):
+    return _Obj(TS + "node::Node", {"inner": x, "original_node": _pos()})
+
+
+def _v_type(t):
+    if t[0] == "Named":
+        return _Var("Named", [_Obj(TS + "type::NamedType", {"name": _v_node(t[1])})], TS + "type::Type")
+    return _Var(t[0], [_Obj(TS + "type::%sType" % t[0], {"inner": _v_type(t[1])})], TS + "type::Type")
+
+
+def _v_directive(name, v):
+    args = _none()
+    if v is not None:
+        val = (_Var("Variable", [_Obj(A + "variable::Variable", {"name": v[1], "position": _pos()})], A + "value::Value") if v[0] == "var" else
+               _Var("BooleanValue", [_Obj(A + "value::BooleanValue", {"position": _pos(), "keyword": "true" if v[1] else "false", "value": v[1]})], A + "value::Value"))
+        args = _some(_Obj(A + "value::Arguments", {"position": _pos(), "arguments": [(_v_ident("if"), val)]}))
+    return _Obj(A + "directive::Directive", {"position": _pos(), "name": _v_ident(name), "arguments": args})
+
+
+def _v_selset(sels):
+    out = []
+    SEL = A + "selection_set::"
+    for s in sels:
+        if s[0] == "field":
+            _, alias, name, dirs, sub = s
+            out.append(_Var("Field", [_Obj(SEL + "Field", {"alias": _none() if alias is None else _some(_v_ident(alias)), "name": _v_ident(name), "arguments": _none(),
+                                                           "directives": [_v_directive(*d) for d in dirs],
+                                                           "selection_set": _none() if sub is None else _some(_v_selset(sub))})], SEL + "Selection"))
+        elif s[0] == "spread":
+            out.append(_Var("FragmentSpread", [_Obj(SEL + "FragmentSpread", {"position": _pos(), "fragment_name": _v_ident(s[1]),
+                                                                             "directives": [_v_directive(*d) for d in s[2]]})], SEL + "Selection"))
+        else:
+            out.append(_Var("InlineFragment", [_Obj(SEL + "InlineFragment", {"position": _pos(), "type_condition": _none() if s[1] is None else _some(_v_ident(s[1])),
+                                                                             "directives": [_v_directive(*d) for d in s[2]], "selection_set": _v_selset(s[3])})], SEL + "Selection"))
+    return _Obj(SEL + "SelectionSet", {"position": _pos(), "selections": out})
+
+
+def _v_schema():
+    m, names = _Map(), []
+    for d in _SCHEMA:
+        name, kind = d[0], d[1]
+        common = {"name": _v_node(name), "description": _none()}
+        fdef = lambda fs: [_Obj(TSD + "Field", {"name": _v_node(a), "description": _none(), "type": _v_type(_ty(b)), "arguments": [], "deprecation": _none()}) for a, b in fs]
+        if kind == "scalar":
+            v = _Var("Scalar", [_Obj(TSD + "ScalarDefinition", common)], TSD + "TypeDefinition")
+        elif kind == "object":
+            v = _Var("Object", [_Obj(TSD + "ObjectDefinition", dict(common, fields=fdef(d[2]), interfaces=[_v_node(i) for i in d[3]]))], TSD + "TypeDefinition")
+        elif kind == "interface":
+            v = _Var("Interface", [_Obj(TSD + "InterfaceDefinition", dict(common, fields=fdef(d[2]), interfaces=[]))], TSD + "TypeDefinition")
+        else:
+            v = _Var("Union", [_Obj(TSD + "UnionDefinition", dict(common, possible_types=[_v_node(x) for x in d[2]]))], TSD + "TypeDefinition")
+        m.d[name] = _v_node(v)
+        names.append(name)
+    return m, names
+
+
+def _v_schema_obj(P):
+    """the Schema value: its fields are crate-private, so they are filled by role (type), not by name"""
+    m, names = _v_schema()
+    adt = P.adt(TS + "schema::Schema")
+    f = {}
+    for name, ty in adt.field_types().items():
+        if "HashMap<" in ty[:48] and "TypeDefinition<" in ty:
+            f[name] = m
+        elif "HashMap<" in ty[:48]:
+            f[name] = _Map()
+        elif ty.startswith("alloc::vec::Vec<") and "Node<" not in ty and "Definition" not in ty:
+            f[name] = list(names)      # the order-keeping name lists (only names with a definition are ever looked up)
+        elif ty.startswith("core::option::Option<"):
+            f[name] = _none()
+        else:
+            f[name] = _Opq(name)
+    if not any(v is m for v in f.values()):
+        raise _Unknown("scenario input: no field of Schema holds the type definitions")
+    return _Obj(adt.path, f)
+
+
+def _v_field(key, f):
+    """canonical field -> SelectionTreeField value"""
+    if f[0] == "empty":
+        return _Var("Empty", [_Obj(ST + "SelectionTreeEmptyLeaf", {"name": key})], ST + "SelectionTreeField")
+    if f[0] == "leaf":
+        return _Var("Leaf", [_Obj(ST + "SelectionTreeLeaf", {"name": key, "type": _v_type(f[1] or ("Named", "String")), "is_typename": f[2]})], ST + "SelectionTreeField")
+    return _Var("Object", [_Obj(ST + "SelectionTreeObject", {"name": key, "selection": _v_tree(f[1])})], ST + "SelectionTreeField")
+
+
+def _v_tree(t):
+    if t[0] in ("NonNull", "List"):
+        return _Var(t[0], [_v_tree(t[1])], ST + "SelectionTree")
+    bs = t[1] if isinstance(t[1], (tuple, list)) else sorted(t[1], key=repr)
+    return _Var("Object", [[_Obj(ST + "SelectionTreeBranch", {"type_name": b[0], "unaliased_fields": [_v_field(k, f) for k, f in sorted(b[1], key=repr)],
+                                                                "aliased_fields": [_v_field(k, f) for k, f in sorted(b[2], key=repr)]}) for b in bs]], ST + "SelectionTree")
+
+
+def _validate(P, v, seen=None):
+    """scenario inputs are written against the ADTs of the reference tree: a field or variant that no longer exists makes the scenario
+    undecided (never a verdict); fields the scenario does not determine are filled with undetermined values"""
+    seen = set() if seen is None else seen
+    if id(v) in seen:
+        return
+    seen.add(id(v))
+    if isinstance(v, _Obj):
+        adt = P.adts.get(v.adt)
+        if adt is not None and adt.kind == "Struct":
+            names = adt.fields()
+            for k in v.f:
+                if k not in names:
+                    raise _Unknown("scenario input: %s has no field `%s` any more" % (v.adt, k))
+            for k in names:
+                v.f.setdefault(k, _Opq(k))
+        for x in list(v.f.values()):
+            _validate(P, x, seen)
+    elif isinstance(v, _Var):
+        adt = P.adts.get(v.adt) if v.adt else None
+        if adt is not None and adt.kind == "Enum":
+            if v.name not in adt.variant_names() or len(adt.fields(v.name)) != len(v.args):
+                raise _Unknown("scenario input: %s has no variant `%s` of %d field(s) any more" % (v.adt, v.name, len(v.args)))
+        for x in v.args:
+            _validate(P, x, seen)
+    elif isinstance(v, (list, tuple)):
+        for x in v:
+            _validate(P, x, seen)
+    elif isinstance(v, _Map):
+        for x in v.d.values():
+            _validate(P, x, seen)
+
+
+class _Shape(Exception):
+    """a result value that is not (determinately) of the expected ADT shape: the scenario is undecided"""
+
+
+class _Malformed(Exception):
+    """a determinate result that no consumer can use"""
+
+
+def _s(v):
+    v = _d(v)
+    if isinstance(v, _Obj) and set(v.f) >= {"inner", "original_node"}:
+        return _s(v.f["inner"])
+    if isinstance(v, _Obj) and "name" in v.f and len(v.f) <= 2:   # ObjectKey {name, pos}
+        return _s(v.f["name"])
+    if not isinstance(v, str):
+        raise _Shape("a string was expected, got %r" % (v,))
+    return v
+
+
+def _c_type(v):
+    v = _d(v)
+    if not isinstance(v, _Var) or len(v.args) != 1:
+        raise _Shape("not a Type: %r" % (v,))
+    x = _d(v.args[0])
+    if v.name == "Named":
+        return ("Named", _s(x.f["name"]) if isinstance(x, _Obj) else _s(x))
+    if v.name in ("List", "NonNull"):
+        return (v.name, _c_type(x.f["inner"] if isinstance(x, _Obj) and "inner" in x.f else x))
+    raise _Shape("not a Type: %r" % (v,))
+
+
+def _c_field(v):
+    v = _d(v)
+    if not isinstance(v, _Var) or len(v.args) != 1 or not isinstance(_d(v.args[0]), _Obj):
+        raise _Shape("not a SelectionTreeField: %r" % (v,))
+    x = _d(v.args[0]).f
+    key = _s(x.get("name"))
+    if v.name == "Empty":
+        return key, ("empty",)
+    if v.name == "Leaf":
+        tn = _d(x.get("is_typename"))
+        if not isinstance(tn, bool):
+            raise _Shape("is_typename undetermined")
+        return key, ("leaf", None if tn else _c_type(x.get("type")), tn)
+    if v.name == "Object":
+        return key, ("obj", _c_tree(x.get("selection")))
+    raise _Shape("not a SelectionTreeField: %r" % (v,))
+
+
+def _c_tree(v):
+    v = _d(v)
+    if not isinstance(v, _Var) or len(v.args) != 1:
+        raise _Shape("not a SelectionTree: %r" % (v,))
+    if v.name in ("NonNull", "List"):
+        return (v.name, _c_tree(v.args[0]))
+    bs = _d(v.args[0])
+    if v.name != "Object" or not isinstance(bs, list):
+        raise _Shape("not a SelectionTree: %r" % (v,))
+    out = []
+    for b in bs:
+        b = _d(b)
+        if not isinstance(b, _Obj):
+            raise _Shape("not a branch: %r" % (b,))
+        un, al = [_c_field(x) for x in _d(b.f.get("unaliased_fields"))], [_c_field(x) for x in _d(b.f.get("aliased_fields"))]
+        if len({k for k, _ in un}) != len(un) or len({k for k, _ in al}) != len(al):
+            raise _Malformed("a branch lists one response key twice: %s" % sorted(k for k, _ in un + al))
+        out.append((_s(b.f.get("type_name")), frozenset(un), frozenset(al)))
+    return ("Object", tuple(out))
+
+
+def _c_ts(v):
+    v = _d(v)
+    if not isinstance(v, _Var):
+        raise _Shape("not a TSType: %r" % (v,))
+    n, a = v.name, v.args
+    if n == "Null":
+        return _NULL
+    if n == "Never":
+        return ("never",)
+    if n == "Union":
+        ms = [_c_ts(x) for x in _d(a[0])]
+        return _u(*ms) if ms else ("never",)
+    if n in ("Array", "ReadonlyArray"):
+        return ("array", _c_ts(a[0]))
+    if n == "StringLiteral":
+        return ("lit", _s(a[0]))
+    if n == "NamespaceMember3":
+        t = _d(a[1])
+        # the target is the TypeTarget constant itself (through Display) or its `__`-prefixed spelling (as_str)
+        return ("ref", (t.name if isinstance(t, _Var) else _s(t)).lstrip("_"), _s(a[2]))
+    if n == "NamespaceMember":
+        return ("member", _s(a[1]))
+    if n == "Object":
+        out = set()
+        for f in _d(a[0]):
+            f = _d(f)
+            opt = _d(f.f.get("optional"))
+            if not isinstance(opt, bool):
+                raise _Shape("optional undetermined")
+            out.add((_s(f.f.get("key")), (_c_ts(f.f.get("type")), opt)))
+        return ("object", frozenset(out))
+    if n == "TypeFunc":
+        fn, args = _c_ts(a[0]), [_c_ts(x) for x in _d(a[1])]
+        if fn == ("member", "__SelectionSet") and len(args) == 3:
+            return ("selset", args[0], args[1], args[2])
+        return ("typefunc", fn, tuple(args))
+    return ("other", n)
+
+
+class _Scn:
+    """the scenario inputs for one Program, and the three entry points they are run through"""
+
+    def __init__(self, P):
+        self.P = P
+        self.oracle = _Oracle()
+        self._anchors = {}
+
+    def _fn(self, name):
+        if name not in self._anchors:
+            try:
+                self._anchors[name] = self.P.fn(name)
+            except AnchorMissing as e:
+                self._anchors[name] = e
+        if isinstance(self._anchors[name], AnchorMissing):
+            raise self._anchors[name]
+        return self._anchors[name]
+
+    gen = property(lambda self: self._fn(OT + "type_printer::get_type_for_selection_set"))
+    to_ts = property(lambda self: self._fn(OT + "selection_tree::to_ts::generate_selection_tree_type"))
+    merge = property(lambda self: self._fn(OT + "deep_merge::deep_merge_selection_tree"))
+
+    def _args(self, f, table):
+        out = []
+        for t in f.sig_inputs:
+            hits = [v for key, v in table if key in t]
+            out.append(hits[0] if hits else _Opq(t))
+        return out
+
+    def _run(self, f, table):
+        try:
+            args = self._args(f, table)
+            _validate(self.P, args)
+        except _Unknown as e:
+            return "unknown", str(e)
+        return _run(self.P, f.path, args)
+
+    def run_tree(self, parent, text):
+        try:
+            return self._run_tree(parent, text)
+        except (_Unknown, AnchorMissing) as e:
+            return "unknown", str(e)
+
+    def _run_tree(self, parent, text):
+        fm = _Map()
+        for name, (cond, sels) in self.oracle.frags.items():
+            fm.d[name] = _Obj(A + "operation::FragmentDefinition", {"position": _pos(), "name": _v_ident(name), "type_condition": _v_ident(cond),
+                                                                     "directives": [], "selection_set": _v_selset(sels)})
+        ctx = _Obj(OT + "type_printer::QueryTypePrinterContext", {"options": _Opq("options"), "schema": _v_schema_obj(self.P), "fragment_definitions": fm})
+        f = self.gen
+        st, v = self._run(f, [("QueryTypePrinterContext", ctx), ("SelectionSet", _v_selset(_gql(text))), ("type::Type<", _v_type(_ty(parent)))])
+        return self._canon(st, v, _c_tree)
+
+    def run_ts(self, tree):
+        f = self.to_ts
+        ctx = _Obj(OT + "selection_tree::to_ts::GenerateSelectionTreeTypeContext", {"schema_root_namespace": "Schema"})
+        st, v = self._run(f, [("GenerateSelectionTreeTypeContext", ctx), ("SelectionTree<", _v_tree(tree))])
+        return self._canon(st, v, _c_ts)
+
+    def run_merge(self, fields):
+        f = self.merge
+        if len(f.params) != 1:
+            return "unknown", "%s takes %d parameters" % (f.path, len(f.params))
+        st, v = self._run(f, [("", list(fields))])
+        return self._canon(st, v, lambda x: [_c_field(y) for y in _d(x)])
+
+    @staticmethod
+    def _canon(st, v, conv):
+        if st != "ok":
+            return st, v
+        try:
+            return "ok", conv(v)
+        except _Malformed as e:
+            return "shape", str(e)
+        except _Shape as e:
+            return "unknown", "undetermined result: " + str(e)
+        except (AttributeError, TypeError, KeyError, IndexError) as e:
+            return "unknown", "result of unexpected shape (%r)" % (e,)
+
+
+_SCN = {}
+
+
+def _scn(P):
+    if id(P) not in _SCN:
+        _SCN[id(P)] = _Scn(P)
+    return _SCN[id(P)]
+
+
+def _scenario_failed(R, rule, key, st, why, what, f):
+    """the run did not produce a comparable result"""
+    if st == "panic":
+        R.violated(rule, key, "run: %s panics (%s) while computing %s on a valid document: no type is generated at all" % (f.path, why, what), loc=f.loc())
+    elif st == "shape":
+        R.violated(rule, key, "run: %s returns a malformed result for %s: %s" % (f.path, what, why), loc=f.loc())
+    else:
+        R.undecided(rule, key, "run: the abstract execution of %s does not decide %s (%s)" % (f.path, what, why), loc=f.loc())
+
+
+def _scenario(R, rule, key, S, parent, text, what):
+    """run the generator on `text` selected on a value of type `parent`; the produced set of branches must equal the spec's"""
+    f = S.gen
+    st, got = S.run_tree(parent, text)
+    doc = "`%s` on %s" % (" ".join(text.split()), parent)
+    if st != "ok":
+        _scenario_failed(R, rule, key, st, got, "the branches of %s" % doc, f)
+        return
+    want = _o_tree_for(S, parent, text)
+    d = _diff_tree(_as_set(got), want)
+    R.check(rule, key, d is None, "run: %s (%s)" % (what, doc),
+            "run: %s — but for %s the generator (%s) produces %s" % (what, doc, f.path, d), loc=f.loc())
+
+
+def _as_set(tree):
+    if tree[0] in ("NonNull", "List"):
+        return (tree[0], _as_set(tree[1]))
+    return ("Object", frozenset((b[0], frozenset((k, (f if f[0] != "obj" else ("obj", _as_set(f[1])))) for k, f in b[1]),
+                                 frozenset((k, (f if f[0] != "obj" else ("obj", _as_set(f[1])))) for k, f in b[2])) for b in tree[1]))
+
+
+# ------------------------------------------------------------------------------------------------ concrete scenarios
+# A small interpreter of the typed HIR (the Rust subset the anchored functions are written in).  A rule builds a concrete input
+# (a directive list, two selection trees, ...) out of the ADTs the property anchors, runs the anchored function on it and compares
+# the result with what the GraphQL spec requires for that input.  Whatever the interpreter has no exact model for raises _Unknown
+# and the instance is UNDECIDED; a wrong result is positive evidence (a concrete witness), independent of how the code is spelled
+# (loop / iterator chain, match / if-let / let-else, helper functions, Vec+find / HashMap, ...).
+class _Unknown(Exception):
+    pass
+
+
+class _Panic(Exception):
+    pass
+
+
+class _Ret(Exception):
+    def __init__(self, v):
+        self.v = v
+
+
+class _Brk(Exception):
+    def __init__(self, v=(), label=None):
+        self.v, self.label = v, label
+
+
+class _Cont(Exception):
+    def __init__(self, label=None):
+        self.label = label
+
+
+class _Opq:
+    """a value the scenario does not determine"""
+    def __init__(self, why=""):
+        self.why = why
+
+    def __repr__(self):
+        return "?%s" % self.why
+
+
+class _Var:
+    """enum variant value (Option/Result/Either and workspace enums)"""
+    def __init__(self, name, args=(), adt=None):
+        self.name, self.args, self.adt = name, list(args), adt
+
+    def __repr__(self):
+        return "%s%s" % (self.name, tuple(self.args) if self.args else "")
+
+
+class _Obj:
+    """struct value"""
+    def __init__(self, adt, f):
+        self.adt, self.f = adt, dict(f)
+
+    def __repr__(self):
+        return "%s%r" % ((self.adt or "").split("::")[-1], self.f)
+
+
+class _Clo:
+    def __init__(self, node, env):
+        self.node, self.env = node, env
+
+
+class _Fn:
+    def __init__(self, path, ctor=None):
+        self.path, self.ctor = path, ctor
+
+
+class _Place:
+    """`&mut` to a slot of a list / map"""
+    def __init__(self, box, key):
+        self.box, self.key = box, key
+
+    def get(self):
+        return self.box[self.key]
+
+    def set(self, v):
+        self.box[self.key] = v
+
+
+class _Iter:
+    """a Rust iterator: single pass and lazy (backed by a Python generator)"""
+    def __init__(self, gen):
+        self.g, self.buf = iter(gen), []
+
+    def __iter__(self):
+        return self
+
+    def __next__(self):
+        if self.buf:
+            return self.buf.pop(0)
+        return next(self.g)
+
+
+class _Map:
+    def __init__(self):
+        self.d = {}
+
+
+class _Set:
+    def __init__(self):
+        self.d = set()
+
+
+class _Env:
+    def __init__(self, parent=None):
+        self.v, self.parent = {}, parent
+
+    def get(self, lid):
+        e = self
+        while e is not None:
+            if lid in e.v:
+                return e.v[lid]
+            e = e.parent
+        return _Opq("unbound")
+
+    def set(self, lid, val):
+        e = self
+        while e is not None:
+            if lid in e.v:
+                e.v[lid] = val
+                return
+            e = e.parent
+        self.v[lid] = val
+
+
+def _some(v):
+    return _Var("Some", [v], "core::option::Option")
+
+
+_NONE_ADT = "core::option::Option"
+
+
+def _none():
+    return _Var("None", [], _NONE_ADT)
+
+
+def _opt(v):
+    return _none() if v is None else _some(v)
+
+
+def _d(v):
+    while isinstance(v, _Place):
+        v = v.get()
+    return v
+
+
+def _key(v):
+    v = _d(v)
+    if isinstance(v, (str, int, bool)):
+        return v
+    if isinstance(v, tuple):
+        return tuple(_key(x) for x in v)
+    raise _Unknown("unhashable key %r" % (v,))
+
+
+def _eq(a, b):
+    """structural equality; None when it depends on an undetermined value"""
+    a, b = _d(a), _d(b)
+    if isinstance(a, _Opq) or isinstance(b, _Opq):
+        return None
+    if isinstance(a, (tuple, list)) and isinstance(b, (tuple, list)):
+        if len(a) != len(b):
+            return False
+        res = True
+        for x, y in zip(a, b):
+            r = _eq(x, y)
+            if r is False:
+                return False
+            if r is None:
+                res = None
+        return res
+    if isinstance(a, _Var) and isinstance(b, _Var):
+        if a.name != b.name:
+            return False
+        return _eq(a.args, b.args)
+    if isinstance(a, _Obj) and isinstance(b, _Obj):
+        if a.adt != b.adt or set(a.f) != set(b.f):
+            return False
+        return _eq([a.f[k] for k in sorted(a.f)], [b.f[k] for k in sorted(a.f)])
+    if type(a) is not type(b) and not (isinstance(a, (int, bool)) and isinstance(b, (int, bool))):
+        return None     # values of different kinds: a user-defined PartialEq may relate them
+    if isinstance(a, (str, int, bool)):
+        return a == b
+    return None
+
+
+def _lit(n):
+    """value of a literal expression / pattern (integers are dumped as decimal text)"""
+    lk, v = n.get("lk"), n.get("v")
+    if lk in ("str", "bool", "char"):
+        return v
+    if lk == "int":
+        try:
+            v = int(str(v).split("_")[0].rstrip("iu")) if not isinstance(v, int) else v
+        except ValueError:
+            m = re.match(r"-?\d+", str(v))
+            if not m:
+                return _Opq("int literal")
+            v = int(m.group(0))
+        return -v if n.get("neg") else v
+    return _Opq("lit")
+
+
+_IDENTITY = {"to_string", "into", "as_str", "as_ref", "as_mut", "borrow", "borrow_mut", "deref", "deref_mut", "as_deref", "as_slice",
+             "as_mut_slice", "copied", "peekable", "fuse", "into_boxed_str", "into_vec", "into_boxed_slice", "from", "to_str", "into_owned"}
+_CLONES = {"clone", "cloned", "to_owned", "to_vec"}
+
+
+def _clone(v):
+    """`Clone::clone`: containers and structs are copied (a later mutation of the copy must not show in the original)"""
+    v = _d(v)
+    if isinstance(v, list):
+        return [_clone(x) for x in v]
+    if isinstance(v, tuple):
+        return tuple(_clone(x) for x in v)
+    if isinstance(v, _Obj):
+        return _Obj(v.adt, {k: _clone(x) for k, x in v.f.items()})
+    if isinstance(v, _Var):
+        return _Var(v.name, [_clone(x) for x in v.args], v.adt)
+    if isinstance(v, _Map):
+        m = _Map()
+        m.d = {k: _clone(x) for k, x in v.d.items()}
+        return m
+    if isinstance(v, _Set):
+        t = _Set()
+        t.d = set(v.d)
+        return t
+    if isinstance(v, _Iter):
+        raise _Unknown("clone of an iterator")
+    return v
+_PANIC_FNS = ("core::panicking::", "std::panicking::", "core::option::expect_failed", "core::result::unwrap_failed", "std::rt::begin_panic")
+
+
+class _Interp:
+    def __init__(self, P, stubs=None, budget=400000, depth=64):
+        self.P, self.stubs, self.steps, self.budget, self.maxdepth = P, stubs or {}, 0, budget, depth
+        self.depth = 0
+
+    # ---------------------------------------------------------------------------------------------------------- calls
+    def call(self, path, args):
+        """run workspace function `path` on argument values"""
+        if path in self.stubs:
+            return self.stubs[path](*args)
+        f = self.P.fns.get(path)
+        if f is None or f.derived:
+            raise _Unknown("no body for %s" % path)
+        if self.depth >= self.maxdepth:
+            raise _Unknown("call depth")
+        env = _Env()
+        if len(f.params) != len(args):
+            raise _Unknown("arity of %s" % path)
+        for p, a in zip(f.params, args):
+            if not self.pm(p, a, env):
+                raise _Unknown("parameter pattern of %s" % path)
+        self.depth += 1
+        try:
+            return self.ev(f.body, env)
+        except _Ret as r:
+            return r.v
+        finally:
+            self.depth -= 1
+
+    def apply(self, fv, args):
+        fv = _d(fv)
+        if isinstance(fv, _Clo):
+            env = _Env(fv.env)
+            ps = fv.node["params"]
+            if len(ps) != len(args):
+                raise _Unknown("closure arity")
+            for p, a in zip(ps, args):
+                if not self.pm(p, a, env):
+                    raise _Unknown("closure parameter pattern")
+            self.depth += 1
+            try:
+                if self.depth > self.maxdepth:
+                    raise _Unknown("call depth")
+                return self.ev(fv.node["body"], env)
+            except _Ret as r:
+                return r.v
+            finally:
+                self.depth -= 1
+        if isinstance(fv, _Fn):
+            if fv.ctor:
+                return self.ctor(fv.path, fv.ctor, args)
+            return self.fncall(fv.path, None, args, None)
+        raise _Unknown("call of %r" % (fv,))
+
+    def ctor(self, path, dk, args):
+        p = norm(path)
+        if "Struct" in dk:
+            return _Obj(p, {str(i): a for i, a in enumerate(args)})
+        return _Var(p.split("::")[-1], args, p.rsplit("::", 1)[0])
+
+    def fncall(self, callee, rd, args, node):
+        """a path call: workspace function, trait method with a workspace impl, or a modelled std function"""
+        for p in (rd, callee):
+            if p and (p in self.stubs or (p in self.P.fns and not self.P.fns[p].derived and self.P.fns[p].kind in ("Fn", "AssocFn"))):
+                return self.call(p, args)
+        c = callee or ""
+        if c.startswith(_PANIC_FNS):
+            raise _Panic(c)
+        last = c.split("::")[-1]
+        if c.endswith(("Vec::new", "Vec::with_capacity", "VecDeque::new")):
+            return []
+        if c.endswith("String::new"):
+            return ""
+        if c.endswith(("HashMap::new", "HashMap::with_capacity", "BTreeMap::new", "IndexMap::new")):
+            return _Map()
+        if c.endswith(("HashSet::new", "HashSet::with_capacity", "BTreeSet::new")):
+            return _Set()
+        if c.endswith("mem::replace") and len(args) == 2 and isinstance(args[0], _Place):
+            old = args[0].get()
+            args[0].set(args[1])
+            return old
+        if c.endswith("mem::take") and len(args) == 1 and isinstance(args[0], _Place) and isinstance(args[0].get(), list):
+            old = args[0].get()
+            args[0].set([])
+            return old
+        if c.endswith("iter::sources::once::once") or c.endswith("iter::once"):
+            return _Iter([args[0]])
+        if c.endswith("iter::sources::empty::empty"):
+            return _Iter([])
+        if c.endswith("Box::new") or c.endswith("convert::identity") or c.endswith(("Rc::new", "Arc::new")):
+            return args[0]
+        if c.endswith("IntoIterator::into_iter") and len(args) == 1:
+            return _Iter(self.iterate(args[0]))
+        if c.endswith("Try::branch") and len(args) == 1:
+            v = _d(args[0])
+            if isinstance(v, _Var) and v.name in ("Some", "Ok"):
+                return _Var("Continue", [v.args[0]], "core::ops::ControlFlow")
+            if isinstance(v, _Var) and v.name in ("None", "Err"):
+                return _Var("Break", [v], "core::ops::ControlFlow")
+            raise _Unknown("`?` on %r" % (v,))
+        if c.endswith("FromResidual::from_residual") and len(args) == 1:
+            return args[0]
+        if c.endswith("write_box_via_move") and len(args) == 2:
+            return args[1]      # `vec![a, b]`
+        if c.endswith("vec::from_elem") and len(args) == 2 and isinstance(_d(args[1]), int):
+            return [args[0]] * _d(args[1])
+        if c.endswith("slice::into_vec") or c.endswith("<[T]>::into_vec") or c.endswith("box_new") or c.endswith("box_assume_init_into_vec_unsafe"):
+            return args[0]
+        if "::" in c and args and (c.split("::")[-2][:1].isupper() or c.startswith("<")):
+            # `Trait::method(recv, ..)` / `Type::method(recv, ..)` spelled as a path call
+            return self.method(last, c, rd, args[0], args[1:], node)
+        return self.unknown_call(c, args, node)
+
+    def unknown_call(self, c, args, node=None):
+        """a callee without body or model: its result is undetermined — unless it may have an effect the scenario depends on (it gets a
+        container, an iterator, a closure or a `&mut` to determined state), in which case nothing is known any more"""
+        for a in args:
+            if isinstance(_d(a), (list, _Map, _Set, _Clo, _Iter)) or isinstance(a, _Place):
+                raise _Unknown("no model for %s" % c)
+        determined = any(not isinstance(_d(a), _Opq) for a in args)
+        if node is not None and determined:
+            if str(node.get("recv_ty", "")).startswith("&mut"):
+                raise _Unknown("no model for %s (mutable receiver)" % c)
+            if any(isinstance(a, dict) and a.get("k") == "AddrOf" and a.get("mut") for a in node.get("args", [])):
+                raise _Unknown("no model for %s (`&mut` argument)" % c)
+        return _Opq(c)
+
+    # ------------------------------------------------------------------------------------------------------- iteration
+    def iterate(self, v):
+        """a Python iterator over the elements `v` yields as a Rust IntoIterator (a list is snapshotted, an iterator is consumed)"""
+        v = _d(v)
+        if isinstance(v, _Iter):
+            return v
+        if isinstance(v, list):
+            return iter(list(v))
+        if isinstance(v, _Var):
+            if v.name == "Some":
+                return iter([v.args[0]])
+            if v.name == "None":
+                return iter([])
+            if v.name in ("Left", "Right") and len(v.args) == 1:
+                return self.iterate(v.args[0])
+        if isinstance(v, _Obj):
+            for g in self.P.impls.get(("core::iter::traits::collect::IntoIterator", "into_iter"), []):
+                if g.self_adt == v.adt and not g.derived:
+                    return self.iterate(self.call(g.path, [v]))
+        if isinstance(v, (_Map, _Set)) and len(v.d) <= 1:
+            return iter([(k, x) for k, x in v.d.items()] if isinstance(v, _Map) else list(v.d))
+        raise _Unknown("iteration over %r" % (v,))
+
+    def truth(self, v):
+        v = _d(v)
+        if v is True or v is False:
+            return v
+        raise _Unknown("branch on undetermined value %r" % (v,))
+
+    # ---------------------------------------------------------------------------------------------------- method models
+    def method(self, name, callee, rd, recv, args, node):
+        P = self.P
+        for p in (rd, callee):
+            if p and (p in self.stubs or (p in P.fns and not P.fns[p].derived and P.fns[p].kind in ("Fn", "AssocFn"))):
+                return self.call(p, [recv] + list(args))
+        r = _d(recv)
+        # trait method declared outside / inside the workspace with a workspace impl for the receiver's ADT
+        if callee and "::" in callee and isinstance(r, (_Obj, _Var)) and r.adt and name not in ("from", "try_from", "into", "try_into", "from_iter", "default"):
+            tr, m = callee.rsplit("::", 1)
+            hits = [g for g in P.impls.get((tr, m), []) if g.self_adt == r.adt and not g.derived]
+            if len(hits) >= 1 and (len(hits) == 1 or all(h.self_adt == r.adt for h in hits)):
+                return self.call(hits[0].path, [recv] + list(args))
+        c = callee or ""
+        A = list(args)
+        ap = self.apply
+        if name in _CLONES and not A and not isinstance(r, _Opq) and not (name == "cloned" and isinstance(r, _Iter)):
+            return _clone(r)
+        if name == "to_string" and isinstance(r, (_Obj, _Var)) and not A:
+            # Display of a smart pointer (Node<T>, NamedType<..>) is the Display of what it dereferences to
+            x = r
+            for _ in range(4):
+                y = _d(self.deref(x))
+                if y is x:
+                    break
+                x = y
+            if isinstance(x, str) or (isinstance(x, _Var) and not x.args):
+                return x
+            raise _Unknown("to_string of %r" % (r,))
+        if name in ("eq", "ne") and len(A) == 1:
+            e = _eq(r, A[0])
+            return _Opq("eq") if e is None else (e if name == "eq" else not e)
+        if isinstance(r, _Opq):
+            for a in A:
+                if isinstance(_d(a), (list, _Map, _Set, _Iter)) or isinstance(a, _Place):
+                    raise _Unknown("no model for %s on undetermined receiver" % name)
+            return _Opq(name)
+        if isinstance(r, bool):
+            if name == "then":
+                return _some(ap(A[0], [])) if r else _none()
+            if name == "then_some":
+                return _some(A[0]) if r else _none()
+            if name == "not":
+                return not r
+        if isinstance(r, _Var) and r.name in ("Some", "None") and (r.adt or _NONE_ADT).endswith("Option"):
+            some = r.name == "Some"
+            x = r.args[0] if some else None
+            if name in ("is_some", "is_none"):
+                return some == (name == "is_some")
+            if name in ("unwrap", "expect"):
+                if not some:
+                    raise _Panic(name)
+                return x
+            if name == "unwrap_or":
+                return x if some else A[0]
+            if name == "unwrap_or_else":
+                return x if some else ap(A[0], [])
+            if name == "map":
+                return _some(ap(A[0], [x])) if some else r
+            if name in ("and_then",):
+                return ap(A[0], [x]) if some else r
+            if name == "filter":
+                return r if some and self.truth(ap(A[0], [x])) else _none()
+            if name == "or":
+                return r if some else A[0]
+            if name == "or_else":
+                return r if some else ap(A[0], [])
+            if name == "and":
+                return A[0] if some else r
+            if name == "xor":
+                raise _Unknown("xor")
+            if name == "is_some_and":
+                return some and self.truth(ap(A[0], [x]))
+            if name == "is_none_or":
+                return (not some) or self.truth(ap(A[0], [x]))
+            if name == "map_or":
+                return ap(A[1], [x]) if some else A[0]
+            if name == "map_or_else":
+                return ap(A[1], [x]) if some else ap(A[0], [])
+            if name in ("ok_or", "ok_or_else"):
+                return _Var("Ok", [x], "core::result::Result") if some else _Var("Err", [A[0] if name == "ok_or" else ap(A[0], [])], "core::result::Result")
+            if name in ("iter", "into_iter", "iter_mut"):
+                return _Iter([x] if some else [])
+            if name == "flatten":
+                return x if some else r
+            if name == "unwrap_or_default":
+                if some:
+                    return x
+                raise _Unknown("default value")
+            if name == "take" and isinstance(recv, _Place):
+                recv.set(_none())
+                return r
+            if name in ("take", "replace", "insert", "get_or_insert", "get_or_insert_with", "as_mut", "take_if"):
+                raise _Unknown("in-place `Option::%s` on a value that is not a place" % name)
+            if name == "zip":
+                o = _d(A[0])
+                if isinstance(o, _Var) and o.name in ("Some", "None"):
+                    return _some((x, o.args[0])) if some and o.name == "Some" else _none()
+            if name in _IDENTITY:
+                return r
+        if isinstance(r, _Var) and r.name in ("Ok", "Err"):
+            ok = r.name == "Ok"
+            if name in ("unwrap", "expect"):
+                if not ok:
+                    raise _Panic(name)
+                return r.args[0]
+            if name == "ok":
+                return _some(r.args[0]) if ok else _none()
+            if name == "is_ok":
+                return ok
+            if name == "is_err":
+                return not ok
+            if name == "map":
+                return _Var("Ok", [ap(A[0], [r.args[0]])], r.adt) if ok else r
+        if isinstance(r, _Var) and r.name in ("Left", "Right") and name in ("map", "map_left", "map_right", "either", "into_iter", "iter"):
+            if name == "map":   # itertools::Either<T, T>::map
+                return _Var(r.name, [ap(A[0], [r.args[0]])], r.adt)
+            if name == "map_left":
+                return _Var(r.name, [ap(A[0], [r.args[0]])], r.adt) if r.name == "Left" else r
+            if name == "map_right":
+                return _Var(r.name, [ap(A[0], [r.args[0]])], r.adt) if r.name == "Right" else r
+            if name == "either":
+                return ap(A[0] if r.name == "Left" else A[1], [r.args[0]])
+            return _Iter(self.iterate(r))
+        if isinstance(r, _Var) and r.name in ("Left", "Right"):
+            # Either as an iterator: delegate to the wrapped iterator
+            return self.method(name, callee, rd, r.args[0], A, node)
+        if isinstance(r, (list, _Iter)):
+            return self.seq_method(name, c, recv, r, A, node)
+        if isinstance(r, _Map):
+            d = r.d
+            if name == "get":
+                k = _key(A[0])
+                return _some(d[k]) if k in d else _none()
+            if name == "get_mut":
+                k = _key(A[0])
+                return _some(_Place(d, k)) if k in d else _none()
+            if name == "contains_key":
+                return _key(A[0]) in d
+            if name == "insert":
+                k = _key(A[0])
+                old = _opt(d.get(k)) if k in d else _none()
+                d[k] = A[1]
+                return old
+            if name == "remove":
+                k = _key(A[0])
+                return _some(d.pop(k)) if k in d else _none()
+            if name == "entry":
+                return ("entry", d, _key(A[0]))
+            if name == "len":
+                return len(d)
+            if name == "is_empty":
+                return not d
+            if name in ("iter", "into_iter", "keys", "values", "into_keys", "into_values", "iter_mut", "values_mut", "drain"):
+                if len(d) > 1:
+                    raise _Unknown("iteration order of a hash map")
+                if name in ("keys", "into_keys"):
+                    return _Iter(list(d.keys()))
+                if name in ("values", "into_values"):
+                    return _Iter(list(d.values()))
+                return _Iter([(k, v) for k, v in d.items()])
+            if name in _IDENTITY:
+                return r
+        if isinstance(r, tuple) and len(r) == 3 and r[0] == "entry":
+            _, d, k = r
+            if name in ("or_insert", "or_insert_with", "or_insert_with_key"):
+                if k not in d:
+                    d[k] = A[0] if name == "or_insert" else ap(A[0], [] if name == "or_insert_with" else [k])
+                return _Place(d, k)
+            if name == "or_default":
+                if k not in d:
+                    t = str((node or {}).get("t", ""))
+                    if "Vec<" in t.split("&mut ")[-1][:24]:
+                        d[k] = []
+                    else:
+                        raise _Unknown("default value")
+                return _Place(d, k)
+            if name == "and_modify":
+                if k in d:
+                    ap(A[0], [_Place(d, k)])
+                return r
+        if isinstance(r, _Set):
+            if name == "insert":
+                k = _key(A[0])
+                new = k not in r.d
+                r.d.add(k)
+                return new
+            if name == "contains":
+                return _key(A[0]) in r.d
+            if name == "remove":
+                k = _key(A[0])
+                had = k in r.d
+                r.d.discard(k)
+                return had
+            if name == "extend":
+                for x in self.iterate(A[0]):
+                    r.d.add(_key(x))
+                return ()
+            if name == "len":
+                return len(r.d)
+            if name == "is_empty":
+                return not r.d
+            if name in ("iter", "into_iter", "drain"):
+                if len(r.d) > 1:
+                    raise _Unknown("iteration order of a hash set")
+                return _Iter(list(r.d))
+            if name in _IDENTITY:
+                return r
+        if isinstance(r, str):
+            if name in ("push_str", "push", "clear", "insert_str", "insert", "truncate", "pop", "remove", "retain", "drain", "extend", "make_ascii_lowercase",
+                        "make_ascii_uppercase"):
+                raise _Unknown("in-place `String::%s`" % name)
+            if name == "len":
+                return len(r)
+            if name == "is_empty":
+                return not r
+            if name in ("starts_with", "ends_with", "contains") and isinstance(_d(A[0]), str):
+                return {"starts_with": r.startswith, "ends_with": r.endswith, "contains": r.__contains__}[name](_d(A[0]))
+        if name in _IDENTITY and not A:
+            return r
+        if name == "into" or name == "from":
+            return r
+        return self.unknown_call("%s (method `%s` on %r)" % (c, name, type(r).__name__), [recv] + A, node)
+
+    def seq_method(self, name, c, recv, r, A, node):
+        """methods of Vec / slices (`r` is a list) and of iterators (`r` is an _Iter).  Adaptors are lazy, exactly as in Rust: their
+        closures run when an element is pulled, so short-circuiting consumers never evaluate them on later elements."""
+        ap, tr, it = self.apply, self.truth, self.iterate
+        is_list = isinstance(r, list)
+        src = it(r)      # a list is snapshotted; an iterator is consumed in place
+
+        def option(y, what):
+            y = _d(y)
+            if not (isinstance(y, _Var) and y.name in ("Some", "None")):
+                raise _Unknown("%s result %r" % (what, y))
+            return y
+
+        # ---- conversions
+        if name in ("iter", "into_iter", "copied", "fuse", "by_ref", "peekable", "into_boxed_slice", "into_vec", "as_slice", "as_ref", "borrow", "as_mut_slice",
+                    "as_mut", "deref", "deref_mut", "into") and not A:
+            if name in ("iter", "into_iter", "copied", "fuse", "peekable") or not is_list:
+                return r if not is_list else _Iter(src)
+            return r
+        if name == "iter_mut" and is_list:
+            return _Iter(_Place(r, i) for i in range(len(r)))
+        if name == "drain" and is_list and not A:
+            out = list(r)
+            del r[:]
+            return _Iter(out)
+        if name == "cloned":
+            return _Iter(_clone(x) for x in src)
+        # ---- lazy adaptors
+        if name == "map":
+            return _Iter(ap(A[0], [x]) for x in src)
+        if name == "inspect":
+            def g_inspect():
+                for x in src:
+                    ap(A[0], [x])
+                    yield x
+            return _Iter(g_inspect())
+        if name == "filter":
+            return _Iter(x for x in src if tr(ap(A[0], [x])))
+        if name == "filter_map":
+            def g_fm():
+                for x in src:
+                    y = option(ap(A[0], [x]), "filter_map")
+                    if y.name == "Some":
+                        yield y.args[0]
+            return _Iter(g_fm())
+        if name == "map_while":
+            def g_mw():
+                for x in src:
+                    y = option(ap(A[0], [x]), "map_while")
+                    if y.name == "None":
+                        return
+                    yield y.args[0]
+            return _Iter(g_mw())
+        if name == "flat_map":
+            return _Iter(y for x in src for y in it(ap(A[0], [x])))
+        if name == "flatten":
+            return _Iter(y for x in src for y in it(x))
+        if name == "chain":
+            other = it(A[0])
+            return _Iter(itertools.chain(src, other))
+        if name == "enumerate":
+            return _Iter((i, x) for i, x in enumerate(src))
+        if name == "zip":
+            return _Iter(zip(src, it(A[0])))
+        if name == "rev":
+            return _Iter(reversed(list(src)))
+        if name in ("skip", "take", "step_by") and isinstance(_d(A[0]), int):
+            n = _d(A[0])
+            return _Iter(itertools.islice(src, n, None) if name == "skip" else (itertools.islice(src, n) if name == "take" else itertools.islice(src, 0, None, n)))
+        if name == "take_while":
+            return _Iter(itertools.takewhile(lambda x: tr(ap(A[0], [x])), src))
+        if name == "skip_while":
+            return _Iter(itertools.dropwhile(lambda x: tr(ap(A[0], [x])), src))
+        if name in ("unique", "dedup") and not A and not (name == "dedup" and is_list):
+            def g_unique():
+                seen = []
+                for x in src:
+                    dup = False
+                    for y in (seen if name == "unique" else seen[-1:]):
+                        e = _eq(x, y)
+                        if e is None:
+                            raise _Unknown("%s over undetermined elements" % name)
+                        dup = dup or e
+                    if not dup:
+                        seen.append(x)
+                        yield x
+            return _Iter(g_unique())
+        if name == "cartesian_product":
+            other = list(it(A[0]))
+            return _Iter((x, y) for x in src for y in other)
+        if name == "multi_cartesian_product":
+            parts = [list(it(p)) for p in src]
+            if not parts:
+                raise _Unknown("multi_cartesian_product of no iterators (differs between itertools versions)")
+            return _Iter(list(p) for p in itertools.product(*parts))
+        # ---- consumers
+        if name in ("collect", "collect_vec"):
+            t = str((node or {}).get("t", ""))
+            if name == "collect_vec" or not t or t.startswith(("alloc::vec::Vec<", "Vec<", "alloc::boxed::Box<[")):
+                return list(src)
+            if t.startswith(("std::collections::hash::map::HashMap<", "alloc::collections::btree::map::BTreeMap<", "indexmap::map::IndexMap<")):
+                m = _Map()
+                for kv in src:
+                    kv = _d(kv)
+                    if not (isinstance(kv, tuple) and len(kv) == 2):
+                        raise _Unknown("collect into a map")
+                    m.d[_key(kv[0])] = kv[1]
+                return m
+            if t.startswith(("std::collections::hash::set::HashSet<", "alloc::collections::btree::set::BTreeSet<", "indexmap::set::IndexSet<")):
+                s = _Set()
+                for x in src:
+                    s.d.add(_key(x))
+                return s
+            if t.startswith(("core::option::Option<alloc::vec::Vec<", "core::result::Result<alloc::vec::Vec<")):
+                out = []
+                for x in src:
+                    x = _d(x)
+                    if not (isinstance(x, _Var) and x.name in ("Some", "None", "Ok", "Err")):
+                        raise _Unknown("collect into Option/Result")
+                    if x.name in ("None", "Err"):
+                        return x
+                    out.append(x.args[0])
+                return _Var("Some" if t.startswith("core::option") else "Ok", [out], t.split("<")[0])
+            raise _Unknown("collect into %s" % t[:48])
+        if name in ("find", "rfind"):
+            for x in (src if name == "find" else reversed(list(src))):
+                if tr(ap(A[0], [x])):
+                    return _some(x)
+            return _none()
+        if name == "find_map":
+            for x in src:
+                y = option(ap(A[0], [x]), "find_map")
+                if y.name == "Some":
+                    return y
+            return _none()
+        if name == "any":
+            for x in src:
+                if tr(ap(A[0], [x])):
+                    return True
+            return False
+        if name == "all":
+            for x in src:
+                if not tr(ap(A[0], [x])):
+                    return False
+            return True
+        if name == "position":
+            for i, x in enumerate(src):
+                if tr(ap(A[0], [x])):
+                    return _some(i)
+            return _none()
+        if name == "for_each":
+            for x in src:
+                ap(A[0], [x])
+            return ()
+        if name == "fold":
+            acc = A[0]
+            for x in src:
+                acc = ap(A[1], [acc, x])
+            return acc
+        if name == "count":
+            return sum(1 for _ in src)
+        if name == "partition_map":
+            le, ri = [], []
+            for x in src:
+                y = _d(ap(A[0], [x]))
+                if not (isinstance(y, _Var) and y.name in ("Left", "Right")):
+                    raise _Unknown("partition_map")
+                (le if y.name == "Left" else ri).append(y.args[0])
+            return (le, ri)
+        if name == "partition":
+            a, b = [], []
+            for x in src:
+                (a if tr(ap(A[0], [x])) else b).append(x)
+            return (a, b)
+        if name == "unzip":
+            a, b = [], []
+            for x in src:
+                x = _d(x)
+                if not (isinstance(x, tuple) and len(x) == 2):
+                    raise _Unknown("unzip")
+                a.append(x[0])
+                b.append(x[1])
+            return (a, b)
+        if not is_list:
+            if name == "next":
+                for x in src:
+                    return _some(x)
+                return _none()
+            if name == "peek":
+                if not r.buf:
+                    for x in r.g:
+                        r.buf.append(x)
+                        break
+                return _some(r.buf[0]) if r.buf else _none()
+            if name == "last":
+                out = _none()
+                for x in src:
+                    out = _some(x)
+                return out
+            if name == "nth" and isinstance(_d(A[0]), int):
+                for x in itertools.islice(src, _d(A[0]), None):
+                    return _some(x)
+                return _none()
+            raise _Unknown("no model for iterator method `%s`" % name)
+        # ---- Vec / slice
+        if name == "len":
+            return len(r)
+        if name == "is_empty":
+            return not r
+        if name == "contains":
+            for x in r:
+                e = _eq(x, A[0])
+                if e is None:
+                    raise _Unknown("contains on undetermined element")
+                if e:
+                    return True
+            return False
+        if name in ("first", "first_mut"):
+            return _some(_Place(r, 0)) if r else _none()
+        if name in ("last", "last_mut"):
+            return _some(_Place(r, len(r) - 1)) if r else _none()
+        if name in ("get", "get_mut") and isinstance(_d(A[0]), int):
+            i = _d(A[0])
+            return _some(_Place(r, i)) if 0 <= i < len(r) else _none()
+        if name in ("push", "push_back"):
+            r.append(A[0])
+            return ()
+        if name == "extend" or name == "extend_from_slice":
+            r.extend(list(it(A[0])))
+            return ()
+        if name == "append":
+            o = _d(A[0])
+            if isinstance(o, list):
+                r.extend(o)
+                del o[:]
+                return ()
+        if name == "insert" and isinstance(_d(A[0]), int):
+            if not 0 <= _d(A[0]) <= len(r):
+                raise _Panic("insert")
+            r.insert(_d(A[0]), A[1])
+            return ()
+        if name == "remove" and isinstance(_d(A[0]), int):
+            if not 0 <= _d(A[0]) < len(r):
+                raise _Panic("remove")
+            return r.pop(_d(A[0]))
+        if name in ("pop", "pop_back"):
+            return _some(r.pop()) if r else _none()
+        if name == "truncate" and isinstance(_d(A[0]), int):
+            del r[_d(A[0]):]
+            return ()
+        if name == "clear":
+            del r[:]
+            return ()
+        if name == "retain":
+            r[:] = [x for x in list(r) if tr(ap(A[0], [x]))]
+            return ()
+        if name == "reverse":
+            r.reverse()
+            return ()
+        if name == "dedup" and not A:
+            out = []
+            for x in r:
+                e = _eq(x, out[-1]) if out else False
+                if e is None:
+                    raise _Unknown("dedup over undetermined elements")
+                if not e:
+                    out.append(x)
+            r[:] = out
+            return ()
+        if name == "swap_remove" and isinstance(_d(A[0]), int):
+            i = _d(A[0])
+            if not 0 <= i < len(r):
+                raise _Panic("swap_remove")
+            x = r[i]
+            r[i] = r[-1]
+            r.pop()
+            return x
+        if name == "split_first":
+            return _some((r[0], r[1:])) if r else _none()
+        if name == "split_last":
+            return _some((r[-1], r[:-1])) if r else _none()
+        if name in ("sort", "sort_unstable", "sort_by_key", "sort_unstable_by_key", "sort_by_cached_key"):
+            keys = [_key(x) if name in ("sort", "sort_unstable") else _key(ap(A[0], [x])) for x in r]
+            if len({type(k) for k in keys}) > 1:
+                raise _Unknown("sort over keys of several kinds")
+            r[:] = [x for _, x in sorted(zip(range(len(r)), r), key=lambda p: (keys[p[0]], p[0]))]
+            return ()
+        raise _Unknown("no model for method `%s` on a sequence" % name)
+
+    # ------------------------------------------------------------------------------------------------------- patterns
+    def pm(self, pat, val, env):
+        """match `val` against `pat`, binding into env; raises _Unknown when the outcome depends on an undetermined value"""
+        k = pat.get("k")
+        if k == "Binding":
+            env.v[pat["local"]] = val
+            return self.pm(pat["sub"], val, env) if "sub" in pat else True
+        if k == "Wild":
+            return True
+        if k in ("Ref", "Deref", "Box", "Guard"):
+            return self.pm(pat["p"], val, env)
+        v = _d(val)
+        if k == "Or":
+            for p in pat["ps"]:
+                if self.pm(p, val, env):
+                    return True
+            return False
+        if isinstance(v, _Opq):
+            if k in ("Tuple",) and "ddpos" not in pat and all(self._irrefutable(p) for p in pat["ps"]):
+                for p in pat["ps"]:
+                    self.pm(p, _Opq(v.why), env)
+                return True
+            if k == "Struct" and pat.get("dk") != "Variant" and all(self._irrefutable(f["p"]) for f in pat["fields"]):
+                for f in pat["fields"]:
+                    self.pm(f["p"], _Opq(v.why), env)
+                return True
+            raise _Unknown("pattern on undetermined value")
+        if k == "Tuple":
+            if "ddpos" in pat or not isinstance(v, tuple) or len(v) != len(pat["ps"]):
+                raise _Unknown("tuple pattern")
+            ok = True
+            for p, x in zip(pat["ps"], v):
+                ok = self.pm(p, x, env) and ok
+                if not ok:
+                    return False
+            return True
+        if k == "TupleStruct":
+            name = norm(pat.get("ctor_of") or pat.get("def") or "").split("::")[-1]
+            if isinstance(v, _Var):
+                if v.name != name:
+                    return False
+                if len(v.args) != len(pat["ps"]) or "ddpos" in pat:
+                    raise _Unknown("variant arity")
+                for p, x in zip(pat["ps"], v.args):
+                    if not self.pm(p, x, env):
+                        return False
+                return True
+            if isinstance(v, _Obj) and all(str(i) in v.f for i in range(len(pat["ps"]))):
+                for i, p in enumerate(pat["ps"]):
+                    if not self.pm(p, v.f[str(i)], env):
+                        return False
+                return True
+            raise _Unknown("tuple-struct pattern on %r" % (v,))
+        if k == "Struct":
+            if pat.get("dk") == "Variant":
+                name = norm(pat["def"]).split("::")[-1]
+                if not isinstance(v, _Var):
+                    raise _Unknown("variant pattern on %r" % (v,))
+                if v.name != name:
+                    return False
+                for f in pat["fields"]:
+                    if f["name"].isdigit() and int(f["name"]) < len(v.args):
+                        if not self.pm(f["p"], v.args[int(f["name"])], env):
+                            return False
+                    elif len(v.args) == 1 and isinstance(_d(v.args[0]), _Obj) and f["name"] in _d(v.args[0]).f:
+                        if not self.pm(f["p"], _d(v.args[0]).f[f["name"]], env):
+                            return False
+                    else:
+                        raise _Unknown("variant field pattern")
+                return True
+            if isinstance(v, _Obj):
+                for f in pat["fields"]:
+                    if not self.pm(f["p"], v.f.get(f["name"], _Opq(f["name"])), env):
+                        return False
+                return True
+            raise _Unknown("struct pattern on %r" % (v,))
+        if k == "PatExpr":
+            if "lk" in pat:
+                e = _eq(v, _lit(pat))
+                if e is None:
+                    raise _Unknown("literal pattern on %r" % (v,))
+                return e
+            name = norm(pat.get("ctor_of") or pat.get("def") or "").split("::")[-1]
+            if isinstance(v, _Var) and name:
+                return v.name == name
+            raise _Unknown("path pattern")
+        raise _Unknown("pattern kind %s" % k)
+
+    def _irrefutable(self, p):
+        k = p.get("k")
+        if k in ("Wild",):
+            return True
+        if k == "Binding":
+            return "sub" not in p or self._irrefutable(p["sub"])
+        if k in ("Ref", "Deref", "Box"):
+            return self._irrefutable(p["p"])
+        if k == "Tuple":
+            return all(self._irrefutable(x) for x in p["ps"])
+        return False
+
+    # ---------------------------------------------------------------------------------------------------- expressions
+    def ev(self, n, env):
+        self.steps += 1
+        if self.steps > self.budget:
+            raise _Unknown("step budget")
+        k = n.get("k")
+        h = getattr(self, "e_" + k, None)
+        if h is None:
+            raise _Unknown("no model for node kind %s" % k)
+        v = h(n, env)
+        for _ in range(n.get("oderef") or 0):
+            v = self.deref(v)
+        return v
+
+    def deref(self, v):
+        """one overloaded `Deref::deref` step: workspace impls are run, std smart pointers are transparent"""
+        x = _d(v)
+        if isinstance(x, _Obj):
+            for tr in ("core::ops::deref::Deref", "core::ops::deref::DerefMut"):
+                for g in self.P.impls.get((tr, "deref" if tr.endswith("Deref") else "deref_mut"), []):
+                    if g.self_adt == x.adt and not g.derived:
+                        return self.call(g.path, [v])
+        if isinstance(x, _Var) and (x.adt or "").endswith("borrow::Cow") and len(x.args) == 1:
+            return x.args[0]
+        return v
+
+    def e_BlockExpr(self, n, env):
+        return self.e_Block(n["b"], env)
+
+    def e_Block(self, n, env):
+        try:
+            for s in n.get("stmts", []):
+                self.ev(s, env)
+            return self.ev(n["tail"], env) if "tail" in n else ()
+        except _Brk as b:
+            if n.get("label") and b.label == n["label"]:      # `'a: { .. break 'a v .. }`
+                return b.v
+            raise
+
+    def e_Stmt(self, n, env):
+        self.ev(n["e"], env)
+        return ()
+
+    def e_Item(self, n, env):
+        return ()
+
+    def e_Let(self, n, env):
+        if "init" not in n:
+            return ()
+        v = self.ev(n["init"], env)
+        if not self.pm(n["pat"], v, env):
+            if "els" in n:
+                self.ev(n["els"], env)
+                raise _Unknown("`else` of let-else does not diverge")
+            raise _Unknown("refutable let")
+        return ()
+
+    def e_LetExpr(self, n, env):
+        return self.pm(n["pat"], self.ev(n["init"], env), env)
+
+    def e_Lit(self, n, env):
+        return _lit(n)
+
+    def e_Path(self, n, env):
+        if "local" in n:
+            return env.get(n["local"])
+        dk = n.get("dk", "")
+        p = norm(n.get("rd") or n.get("def") or "")
+        if dk.startswith("Ctor"):
+            if "Const" in dk:
+                if "Struct" in dk:
+                    return _Obj(norm(n["def"]), {})
+                d = norm(n.get("ctor_of") or n["def"])
+                return _Var(d.split("::")[-1], [], d.rsplit("::", 1)[0])
+            return _Fn(norm(n.get("ctor_of") or n["def"]), ctor=dk)
+        if dk in ("Fn", "AssocFn"):
+            return _Fn(p)
+        return _Opq(p)
+
+    def e_Field(self, n, env):
+        b = _d(self.ev(n["e"], env))
+        f = n["field"]
+        if isinstance(b, _Obj):
+            return b.f[f] if f in b.f else _Opq(f)
+        if isinstance(b, tuple) and f.isdigit() and int(f) < len(b):
+            return b[int(f)]
+        if isinstance(b, _Opq):
+            return _Opq(f)
+        raise _Unknown("field `%s` of %r" % (f, b))
+
+    def e_AddrOf(self, n, env):
+        e = n["e"]
+        if e.get("k") == "Index":
+            box, i = _d(self.ev(e["e"], env)), _d(self.ev(e["idx"], env))
+            if isinstance(box, list) and isinstance(i, int):
+                if not 0 <= i < len(box):
+                    raise _Panic("index")
+                return _Place(box, i)
+        if e.get("k") == "Field" and n.get("mut"):
+            b = _d(self.ev(e["e"], env))
+            if isinstance(b, _Obj) and e["field"] in b.f:
+                return _Place(b.f, e["field"])
+        if e.get("k") == "Path" and "local" in e and n.get("mut"):
+            # `&mut local`: mutable containers are shared by identity; scalars / options need a slot
+            v = env.get(e["local"])
+            if isinstance(_d(v), (list, _Map, _Set, _Obj, _Clo, _Opq, _Iter)) or isinstance(v, _Place):
+                return v
+            holder = env
+            while holder is not None and e["local"] not in holder.v:
+                holder = holder.parent
+            if holder is not None:
+                return _Place(holder.v, e["local"])
+        return self.ev(e, env)
+
+    def e_DropTemps(self, n, env):
+        return self.ev(n["e"], env)
+
+    e_Use = e_Cast = e_Type = e_DropTemps
+
+    def e_Unary(self, n, env):
+        v = self.ev(n["e"], env)
+        op = n.get("op")
+        if op == "Deref":
+            if n.get("callee"):
+                return self.deref(v)
+            return v if not isinstance(v, _Place) or isinstance(v.get(), (list, _Map, _Set, _Obj)) else v.get()
+        v = _d(v)
+        if isinstance(v, _Opq):
+            return _Opq(op)
+        if op == "Not" and isinstance(v, bool):
+            return not v
+        if op == "Neg" and isinstance(v, int):
+            return -v
+        raise _Unknown("unary %s on %r" % (op, v))
+
+    def e_Binary(self, n, env):
+        op = n.get("op")
+        if op in ("&&", "||"):
+            l = _d(self.ev(n["l"], env))
+            if isinstance(l, bool):
+                if (op == "&&" and not l) or (op == "||" and l):
+                    return l
+                return self.ev(n["r"], env)
+            r = _d(self.ev(n["r"], env))
+            if isinstance(r, bool) and ((op == "&&" and not r) or (op == "||" and r)):
+                return r
+            return _Opq(op)
+        l, r = self.ev(n["l"], env), self.ev(n["r"], env)
+        if op in ("==", "!="):
+            c = norm(n.get("rd") or n.get("callee") or "")
+            lv = _d(l)
+            if not (c in self.P.fns and not self.P.fns[c].derived) and isinstance(lv, (_Obj, _Var)) and lv.adt:
+                hits = [g for g in self.P.impls.get(("core::cmp::PartialEq", "eq"), []) if g.self_adt == lv.adt and not g.derived]
+                c = hits[0].path if len(hits) == 1 else c
+            if c in self.P.fns and not self.P.fns[c].derived:
+                e = self.truth(self.call(c, [l, r]))
+                return e if op == "==" else not e
+            e = _eq(l, r)
+            return _Opq(op) if e is None else (e if op == "==" else not e)
+        l, r = _d(l), _d(r)
+        if isinstance(l, _Opq) or isinstance(r, _Opq):
+            return _Opq(op)
+        if isinstance(l, bool) and isinstance(r, bool) and op in ("^", "&", "|"):
+            return {"^": l != r, "&": l and r, "|": l or r}[op]
+        if isinstance(l, int) and isinstance(r, int) and not isinstance(l, bool):
+            if op in ("+", "-", "*", "<", "<=", ">", ">="):
+                return {"+": l + r, "-": l - r, "*": l * r, "<": l < r, "<=": l <= r, ">": l > r, ">=": l >= r}[op]
+        raise _Unknown("binary %s" % op)
+
+    def e_Tup(self, n, env):
+        return tuple(self.ev(e, env) for e in n["es"])
+
+    def e_Array(self, n, env):
+        return [self.ev(e, env) for e in n["es"]]
+
+    def e_Struct(self, n, env):
+        if "rest" in n:
+            raise _Unknown("struct pattern as expression")
+        f = {}
+        if "base" in n and n["base"] is not None and isinstance(n["base"], dict) and n["base"].get("k"):
+            b = _d(self.ev(n["base"], env))
+            if not isinstance(b, _Obj):
+                raise _Unknown("struct base")
+            f.update(b.f)
+        for x in n["fields"]:
+            f[x["name"]] = self.ev(x["e"], env)
+        adt = norm(n.get("adt") or "")
+        if n.get("dk") == "Variant" or (n.get("variant") and norm(n["variant"]) != adt):
+            v = norm(n.get("variant") or n.get("def"))
+            return _Var(v.split("::")[-1], [_Obj(v, f)], adt)
+        return _Obj(adt, f)
+
+    def e_Closure(self, n, env):
+        return _Clo(n, env)
+
+    def e_Call(self, n, env):
+        f = n.get("f", {})
+        dk = n.get("callee_dk") or f.get("dk") or ""
+        if f.get("k") == "Path" and "local" not in f and dk.startswith("Ctor"):
+            return self.ctor(n.get("callee") or f.get("def"), dk, [self.ev(a, env) for a in n["args"]])
+        if not (f.get("k") == "Path" and "local" not in f and f.get("dk") in ("Fn", "AssocFn")):
+            fv = self.ev(f, env)
+            return self.apply(fv, [self.ev(a, env) for a in n["args"]])
+        callee, rd = norm(n.get("callee") or f.get("def")), norm(f.get("rd"))
+        if callee.startswith(_PANIC_FNS):
+            raise _Panic(callee)
+        return self.fncall(callee, rd, [self.ev(a, env) for a in n["args"]], n)
+
+    def e_MethodCall(self, n, env):
+        recv = self.ev(n["recv"], env)
+        args = [self.ev(a, env) for a in n["args"]]
+        return self.method(n["method"], norm(n.get("callee")), norm(n.get("rd")), recv, args, n)
+
+    def e_If(self, n, env):
+        if self.truth(self.ev(n["cond"], env)):
+            return self.ev(n["then"], env)
+        return self.ev(n["else"], env) if "else" in n else ()
+
+    def e_Match(self, n, env):
+        if n.get("src") == "ForLoopDesugar":
+            return self.for_loop(n, env)
+        v = self.ev(n["scrut"], env)
+        for arm in n["arms"]:
+            if self.pm(arm["pat"], v, env):
+                if "guard" in arm and not self.truth(self.ev(arm["guard"], env)):
+                    continue
+                return self.ev(arm["body"], env)
+        raise _Unknown("no arm matches %r" % (_d(v),))
+
+    def for_loop(self, n, env):
+        sc = n["scrut"]
+        if not (sc.get("k") == "Call" and len(sc.get("args", [])) == 1):
+            raise _Unknown("for-loop shape")
+        seq = self.iterate(self.ev(sc["args"][0], env))     # pulled lazily: `break` leaves the rest unevaluated
+        inner = [x for x in subnodes(n["arms"][0]["body"]) if x.get("k") == "Match" and x.get("src") == "ForLoopDesugar"]
+        if not inner:
+            raise _Unknown("for-loop shape")
+        some = [a for a in inner[0]["arms"] if norm(a["pat"].get("def") or "").endswith("Option::Some")]
+        if len(some) != 1 or len(some[0]["pat"].get("fields", [])) != 1:
+            raise _Unknown("for-loop shape")
+        pat, body = some[0]["pat"]["fields"][0]["p"], some[0]["body"]
+        label = next((x.get("label") for x in subnodes(n["arms"][0]["body"]) if x.get("k") == "Loop"), None)
+        for x in seq:
+            if not self.pm(pat, x, env):
+                raise _Unknown("for-loop pattern")
+            try:
+                self.ev(body, env)
+            except _Cont as c:
+                if c.label not in (None, label):
+                    raise
+                continue
+            except _Brk as b:
+                if b.label not in (None, label):
+                    raise
+                break
+        return ()
+
+    def e_Loop(self, n, env):
+        while True:
+            self.steps += 1
+            if self.steps > self.budget:
+                raise _Unknown("step budget")
+            try:
+                self.e_Block(n["body"], env) if n["body"].get("k") == "Block" else self.ev(n["body"], env)
+            except _Cont as c:
+                if c.label not in (None, n.get("label")):
+                    raise
+                continue
+            except _Brk as b:
+                if b.label not in (None, n.get("label")):
+                    raise
+                return b.v
+
+    def e_Break(self, n, env):
+        raise _Brk(self.ev(n["e"], env) if "e" in n else (), n.get("label"))
+
+    def e_Continue(self, n, env):
+        raise _Cont(n.get("label"))
+
+    def e_Ret(self, n, env):
+        raise _Ret(self.ev(n["e"], env) if "e" in n else ())
+
+    e_InlRet = e_Ret
+
+    def e_Assign(self, n, env):
+        v = self.ev(n["r"], env)
+        l = n["l"]
+        if l.get("k") == "Path" and "local" in l:
+            cur = env.get(l["local"])
+            env.set(l["local"], v)
+            return ()
+        if l.get("k") == "Unary" and l.get("op") == "Deref":
+            t = self.ev(l["e"], env)
+            if isinstance(t, _Place):
+                t.set(v)
+                return ()
+        if l.get("k") == "Field":
+            b = _d(self.ev(l["e"], env))
+            if isinstance(b, _Obj):
+                b.f[l["field"]] = v
+                return ()
+        if l.get("k") == "Index":
+            p = self.e_AddrOf({"e": l, "mut": True}, env)
+            if isinstance(p, _Place):
+                p.set(v)
+                return ()
+        raise _Unknown("assignment target")
+
+    def e_AssignOp(self, n, env):
+        op = (n.get("op") or "").rstrip("=")
+        cur = self.ev(n["l"], env)
+        v = self.e_Binary({"op": op, "l": {"k": "_Val", "v": cur}, "r": n["r"]}, env)
+        if isinstance(_d(v), _Opq):
+            raise _Unknown("compound assignment of an undetermined value")
+        l = n["l"]
+        if l.get("k") == "Path" and "local" in l:
+            if isinstance(cur, _Place):
+                cur.set(v)
+            else:
+                env.set(l["local"], v)
+            return ()
+        if l.get("k") == "Unary" and l.get("op") == "Deref":
+            t = self.ev(l["e"], env)
+            if isinstance(t, _Place):
+                t.set(v)
+                return ()
+        if l.get("k") == "Field":
+            b = _d(self.ev(l["e"], env))
+            if isinstance(b, _Obj):
+                b.f[l["field"]] = v
+                return ()
+        raise _Unknown("compound assignment target")
+
+    def e__Val(self, n, env):
+        return n["v"]
+
+    def e_Index(self, n, env):
+        p = self.e_AddrOf({"e": n, "mut": False}, env)
+        if isinstance(p, _Place):
+            return p.get()
+        box = _d(self.ev(n["e"], env))
+        if isinstance(box, _Map):
+            k = _key(self.ev(n["idx"], env))
+            if k not in box.d:
+                raise _Panic("index")
+            return box.d[k]
+        if isinstance(box, _Opq):
+            return _Opq("index")
+        raise _Unknown("index")
+
+
+def _run(P, path, args, stubs=None):
+    """-> ("ok", value) | ("panic", why) | ("unknown", why)"""
+    ip = _Interp(P, stubs)
+    try:
+        return "ok", ip.call(path, args)
+    except _Panic as e:
+        return "panic", str(e)
+    except _Unknown as e:
+        return "unknown", str(e)
+    except (_Brk, _Cont):
+        return "unknown", "stray break/continue"
+    except (KeyError, IndexError, TypeError, AttributeError, RecursionError) as e:
+        return "unknown", "interpreter: %r" % (e,)
 
 
 RULES = [("R02-a", r02a), ("R02-b", r02b), ("R02-c", r02c), ("R02-d", r02d), ("R02-e", r02e), ("R02-f", r02f)]
 EXPLANATION = (
-    "The mechanisms C02 anchors, each a necessary condition decided for all inputs: (R02-a) nullability tables of the output-type "
-    "builders — a type is nullable unless wrapped in Non-Null, list elements are decided afresh, wrappers are carried 1:1 into the "
-    "selection tree, leaves and nested selections use the schema field's type; (R02-b) the __typename literal is the branch's "
+    "The mechanisms C02 anchors, each a necessary condition. Structural instances are decided for all inputs; instances marked `run:` "
+    "are decided by abstract execution of the public entry points over the typed HIR on a fixed small schema and a GraphQL selection, "
+    "everything else undetermined, compared with the GraphQL spec's result for that input (a differing result is a concrete witness). "
+    "(R02-a) nullability: a type is nullable unless wrapped in Non-Null, list elements are decided afresh, wrappers are carried 1:1 into "
+    "the selection tree, leaves and nested selections use the schema field's type; (R02-b) the __typename literal is the branch's "
     "concrete object type, and the special case is keyed by field name rather than response key; (R02-c) result leaves and branches "
     "refer to the OperationOutput namespace; (R02-d) object declarations list __typename plus every field; (R02-e) the merge table "
-    "of same-key fields evaluated with first-match semantics (a field selected in any occurrence is present, sides kept correctly); "
-    "(R02-f) the type-condition filter relates each kind of condition to the branch's object, @skip/@include rows, both values of "
-    "each boolean variable, possible types per parent kind. Not decided: that the emitted union equals the per-selection-set "
-    "denotation.")
-ASSUMPTIONS = ["TypeScript semantics of the emitted utility type __SelectionSet (not analysed)", "GraphQL spec §3.12 nullability, §5.5.2 fragment applicability"]
+    "of same-key fields (a field selected in any occurrence is present, sides kept correctly), branches paired by object type, "
+    "fast_equal sound; (R02-f) the type-condition filter relates each kind of condition to the branch's object at every fragment "
+    "site, @skip/@include rows, both values of each boolean variable of every directive of every selection, possible types per "
+    "parent kind. Not decided: that the emitted union equals the per-selection-set denotation for every schema and document.")
+ASSUMPTIONS = ["TypeScript semantics of the emitted utility type __SelectionSet (not analysed)", "GraphQL spec §3.12 nullability, §5.5.2 fragment applicability",
+               "the interpreter's models of std (Option, iterators, Vec, HashMap/HashSet, itertools products) are exact; anything else is UNDECIDED"]
 
 
 def main(tier):
